@@ -12,2552 +12,960 @@ Definition show_fres (r : fres) : string :=
   end.
 Definition check (rs : list rune) : string := digest (show_fres (format_res rs)).
 Definition full (rs : list rune) : string := show_fres (format_res rs).
-Eval vm_compute in ("<<<M3610>>>" ++ check (runes_of_ascii "  MetaData
-BodyLength {	zchar[	42// trailing space 
-    ]  falsey ,
-    x_y_z
-
-trueish 
-`{ , }`,	options1  Header`
-`
-    ,
-uint8
-Header `tab	here`
-	,
-
-uint8 
-// packet A { u8 x, }
-
-zchar, float64
-len  ,
-}	packet  //x
-    chars
-
-{
-zchar[00 ] options1  ,zchar[  // c
-7
-
-]
-
-    Header , @tag(
-
-    0 )
-
-char[]
-
-    MetaDataX  `line1
-line2`
-, repeat
-metadata
-	{ i64 
-        // packet A { u8 x, }
+Eval vm_compute in ("<<<M156>>>" ++ check (runes_of_ascii "packet  zchar
+    { char[]  string_ ,
     // @lengthOf(
-
-  MetaDataX
-, 
-int8 
-o ,  leftPad  Pad, string	Z9_	`u8 x,`
-
-, }
-,
-@leftPad  (  '0'
-)u64
-calculatedFrom 
-// trailing space 
-      // c
-  	@calculatedFrom( ""a\""b""
-    ), 
-@lengthOf( 
-leftPad	) repeat
-
-Foo 
-`line1
-line2`
-,
-}
-packet
-	options1 
-        //x
-		//	t
-
-	{ @tag(	00)
-body asx
-	, 
-    // a // b
-
-  // " ++ [128512]%N ++ runes_of_ascii " emoji
-  repeat  MetaDataX{
-	repeat  i64
-
-    u8x	`" ++ [233]%N ++ runes_of_ascii "`,
-},pack@calculatedFrom(""CRC32""
-)
-`
-` , repeat	Pad{ Foo{
-repeat
-i8i8 ,
-MetaDataX
-, 
-
-// @lengthOf(
-	lengthOf
-
-    @calculatedFrom(""abc""
-)
-	`// not a comment`
-, 	 /// triple
-  }
-
-    ,
-
-    }
-,float64  string_
-@calculatedFrom(//
-    ""it's""
-
-)
-
-    `u8 x,`
-	, 
-i8
-	Z9_@lengthOf( _x )
-,	BodyLength	matchKey
-`tab	here`, uint64
-    // " ++ [128512]%N ++ runes_of_ascii " emoji
-	  As @calculatedFrom(
-	""// no comment""	)
-
-,}
-
-packet
-
-    leftPad {
-match
-
-packetx
-	as // trailing space 
-    Foo
-{ 
-[
-""x y"",	3	] 
-        // " ++ [128512]%N ++ runes_of_ascii " emoji
-: 
-As
-
-,
-    00:
-leftPad 
-
-// a // b
-//	t
-    	,
-[ 
-""\n""	,""""
-	] 
-: 
-MetaDataX
-	,
+    msg_type , match
+    roots // " ++ [27880; 37322]%N ++ runes_of_ascii "
+as metadata { 3: Logon
+, [""a\\"",""1"" , 3 ,
 00
-:
-x
-	""""
-: int,
-    } 
-,
-i32 
-        // " ++ [27880; 37322]%N ++ runes_of_ascii "
-    Foo
-,
-repeat string
-roots 
-,
-
-    repeat
-
-    body 
-chars `" ++ [28040; 24687; 31867; 22411]%N ++ runes_of_ascii "`	,
-
-int
-	`" ++ [233]%N ++ runes_of_ascii "` ,
-@rightPad
-( ' ') string
-	BodyLength  ,
-	@lengthOf( lengthOf 	 // " ++ [128512]%N ++ runes_of_ascii " emoji
-  	)
-	char
-
-    uint8x `line1
-line2`
-
-    , zchar[00]repeatCount @calculatedFrom(
-	""" ++ [28040; 24687]%N ++ runes_of_ascii """ 
-)
-,
-
-    @calculatedFrom( ""a	b""
-) falsey
-//x
-	@calculatedFrom(	""1""  )  `crlf
-line`
-, }//x
-packet
-    Header { 	 // trailing space 
-    @calculatedFrom(
-
-""" ++ [28040; 24687]%N ++ runes_of_ascii """)int64 
-u`crlf
-line` , 
-@calculatedFrom( ""CRC32""
-    ) 	 // packet A { u8 x, }
-  int64	uint8x
-
-    ,	char[
-	255  ] Foo `
-` ,
-}
-")).
-Eval vm_compute in ("<<<M871>>>" ++ check (runes_of_ascii "// `tick` ""quote"" 'q'
-MetaData
-tag{ u8 lengthOf `it's`
-,
-zchar[  3] msg_type , Pad a1`doc`
-    , } packet int { @tag( 42
-    )char[] trueish`line1
-line2`
-    // a // b
-    , int64 A @calculatedFrom( ""// no comment"" )
-`
-`,	@lengthOf( u8x )
-    @leftPad (' '
-    ) @rightPad
-(
-)
-    repeat int64 float ,
-    // a // b
-    char[ 00
-    ] Pad `// not a comment` ,@rightPad (// packet A { u8 x, }
-)
-    float {zchar[
-0	] i8i8,	pack
-    {_x falsey
-, repeat
-    string Packet `two words`
-    ,match
-rootA as matchKey
-    { [ ""it's""	,// `tick` ""quote"" 'q'
-255 ]:Packet  , // packet A { u8 x, }
-""a\\"" : i8i8 , [ ""a	b""//
-,
-    ""CRC32""
-] :
-    crc,
-42 // trailing space 
-:Packet
-007
-: MetaDataX 0: float , } ,	} , i16 Z9_
-@calculatedFrom(
-    ""{,}"")// c
-, string float @lengthOf( roots // c
-) `doc` , }
-    //x
-    , @rightPad //
-( '0' ) u16 f32a
-//	t
-// packet A { u8 x, }
-, } root
-    packet  Header {
-}options	{
-trueish// packet A { u8 x, }
-=char[
-    007 //x
-]
-; asx = '\x00'
-stringy=
-'\x00';  roots	= ' '
-    }packet BodyLength { @leftPad ( // @lengthOf(
-'0' ) f32a @calculatedFrom(
-    // " ++ [27880; 37322]%N ++ runes_of_ascii "
-    ""a\\"" ) `doc` ,repeat a1	{
-msg_type , }
-    , @leftPad
-( '0' ) @calculatedFrom( // `tick` ""quote"" 'q'
-""" ++ [128512]%N ++ runes_of_ascii """ )	@rightPad
-    ()// " ++ [128512]%N ++ runes_of_ascii " emoji
-int32
-    tag@lengthOf( string_ ) `doc`
-    ,	match
-matchKey as
-f32a{ """ ++ [128512]%N ++ runes_of_ascii """:	body,	}	, repeat // " ++ [128512]%N ++ runes_of_ascii " emoji
-u lengthOf ,char[] Foo `` , @lengthOf(	zchar ) Z9_	{ i32 calculatedFrom ,} , @leftPad ( '0' ) @calculatedFrom( ""\n"" )  @lengthOf( body
-) i32 As
-@calculatedFrom(	""CRC32"" ) `u8 x,` , repeat
-float // a // b
-A , a1@lengthOf(
-trueish )
-    //
-    `{ , }` ,
-} 	 ")).
-Eval vm_compute in ("<<<M4394>>>" ++ check (runes_of_ascii "root packet Foo {
-    chars {
-        falsey body,
-        zchar[3] repeatCount `{ , }`,
-    },
-    @lengthOf(BodyLength)
-    i8 Z9_ @lengthOf(trueish),// " ++ [128512]%N ++ runes_of_ascii " emoji
-    @rightPad()
-    repeat Pad {
-        _x @calculatedFrom(""\" ++ [233]%N ++ runes_of_ascii """),
-        match msg_type as uint8x {
-            [1, ""\n"", 0, ""\n""] : Packet,
-            ""CRC32"" : pack,
-        },
-    },
-    @calculatedFrom(""a\""b"")
-    repeat body {
-        char[007] i64_ `
-                `,
-        match charz as pack {
-            65535 : u8x,
-            65535 : zchar,
-            [255] : chars,
-            1 : stringy,
-            [""" ++ [28040; 24687]%N ++ runes_of_ascii """] : int,
-            0 : asx,
-        },
-    },
-    match o as A {
-        007 : calculatedFrom,
-        ""abc"" : roots,
-        ""`tick`"" : Foo,
-        ""it's"" : Foo,
-        007 : float,
-    },
-    @leftPad(' ')
-    // `tick` ""quote"" 'q'
-    // trailing space 
-    repeat repeatCount,
-    char[007] u128 `crlf
-        line`,
-}//
-
-packet asx {
-    charz {
-        rootA @calculatedFrom(""" ++ [233]%N ++ runes_of_ascii "t" ++ [233]%N ++ runes_of_ascii """),
-    },
-}
-
-packet msg_type {
-}
-
-MetaData o {
-    f32 msg_type,
-    int64 body,
-}
-
-root packet body {
-    @tag(1)
-    @calculatedFrom(""`tick`"")
-    @tag(0123456789)
-    metadata {
-        pack i64_,
-    },
-    repeat zchar[7] asx,
-    chars @calculatedFrom(""\n""),
-    repeat zchar[4294967296] x,
-    @rightPad('\x00')
-    u8 msg_type `" ++ [233]%N ++ runes_of_ascii "`,
-    float64 pack @lengthOf(MetaDataX),
-}")).
-Eval vm_compute in ("<<<M938>>>" ++ check (runes_of_ascii "root packet
-    options1{ repeat u { f64 roots// @lengthOf(
-, },
-    zchar falsey `crlf
-line`// `tick` ""quote"" 'q'
-,
-    match
-u
-    as Foo
-{ 42
-: lengthOf
-    , ""\n"" : crc,
-[
-4294967296 // c
-,// trailing space 
-4294967296
-    , 3 ,
-""\" ++ [233]%N ++ runes_of_ascii """	,
-// " ++ [128512]%N ++ runes_of_ascii " emoji
-//x
-""x y"" ]:	o ,}  ,
-    a1`crlf
-line`, @rightPad(
-// " ++ [128512]%N ++ runes_of_ascii " emoji
-//
-) char[ 0123456789 // " ++ [128512]%N ++ runes_of_ascii " emoji
-] //
-x_y_z  `line1
-line2`
-, @lengthOf(trueish ) i32 A// packet A { u8 x, }
-`u8 x,` ,}
-packet packetx	{ // " ++ [128512]%N ++ runes_of_ascii " emoji
-match	u as
-u8x
-    {// " ++ [27880; 37322]%N ++ runes_of_ascii "
-255 :
-lengthOf	,	[ """ ++ [233]%N ++ runes_of_ascii "t" ++ [233]%N ++ runes_of_ascii """, 7
-    ,00	, // packet A { u8 x, }
-""a\\"", 10 ,0 ,
-    007 ,  3
-    // c
-    ]
-: string_ 0123456789: f32a // " ++ [128512]%N ++ runes_of_ascii " emoji
-,
-}	, // trailing space 
-stringy@calculatedFrom( ""\" ++ [233]%N ++ runes_of_ascii """
-)`line1
-line2`
-    //x
-    , @leftPad
-    (
-) zchar[
-10 ] trueish , // packet A { u8 x, }
-}root packet Logon {
-i64_
-@lengthOf( int )`// not a comment` , @tag(3) match lengthOf as pack
-{
-42 // `tick` ""quote"" 'q'
-:
-    T, 255
-    : int
-    , 007 : tag // " ++ [128512]%N ++ runes_of_ascii " emoji
-,4294967296 : _x, }
-, @calculatedFrom( ""packet"" ) @tag( 10
-// @lengthOf(
-// a // b
-) @tag(65535 )
-zchar[ 65535
-] roots ,
-    @rightPad ( // `tick` ""quote"" 'q'
-' '
-) @tag(
-7)
-    // @lengthOf(
-    string
-Packet @lengthOf(
-    u	)  `tab	here` // trailing space 
-,
-    }
-packet metadata {} root packet x {}
-")).
-Eval vm_compute in ("<<<M4384>>>" ++ check (runes_of_ascii "
-MetaData
-    falsey	{ i8
-Logon
-,// packet A { u8 x, }
-
-len metadata`doc` ,
-
-}MetaData  // " ++ [27880; 37322]%N ++ runes_of_ascii "
-
-  Foo 
-{char[
-    65535]
-    calculatedFrom 
-`
-`  
-      // a // b
-//x
-    , matchKey// c
-      zchar , u
-
-    stringy	`
-`
-
-,
-
-    MetaDataX
-    u
-
-    `say ""hi""`
-    , 	 // c
-		}packet msg_type	{
-@lengthOf(	Z9_
-    ) 
-	    //x
-  	//x
-
-@lengthOf( 
-x
-)
-
-    @tag(	0 
-)  calculatedFrom { 
-msg_type
-
-@calculatedFrom(
-""CRC32""
-)`say ""hi""` ,  repeat
-	matchKey
-	{repeat T
-
-{
-char[ // " ++ [27880; 37322]%N ++ runes_of_ascii "
-  1
-] 
-T  ,repeatCount  `line1
-line2`  ,
-    match 
-int
-as	x
-
-    {
-	""packet""	//x
-	:options1
-,
-    00	:
-
-    calculatedFrom
-00
-
-:
-    falsey,	}	,}
-
-    ,
-char[] uint8x,match
-
-Packet as	falsey
-{
-	7 :	// packet A { u8 x, }
-  f32a , 	 // a // b
-	10
-
-:	u
-    ,  1
-    : Header ,
-[ ""packet""	// " ++ [27880; 37322]%N ++ runes_of_ascii "
-  ,
-    0
-	// " ++ [27880; 37322]%N ++ runes_of_ascii "
-
-// @lengthOf(
-  ,
-
-""a	b"" ]
-
-:
-    o 
-0123456789
-	: chars
-}	,  zchar[
-65535 ]
-    Foo
-,
-	} 
-,
-	}
-, } // packet A { u8 x, }
-		root	packet u	//x
-{ @tag(
-    007) i32 	 // trailing space 
-
-stringy
-@lengthOf(
-
-//
-  a1)
-
-`{ , }`
-,
-    } MetaData
-    string_
-	{uint64
-	chars
-    `crlf
-line`
-    ,char[ // @lengthOf(
-    3]	u8x `a\` ,
-    }")).
-Eval vm_compute in ("<<<M245>>>" ++ check (runes_of_ascii "packet As { @lengthOf( // c
-u8x )
-    repeat u32 T ,
-string Foo@calculatedFrom(
-""it's"" ) `doc`  , @tag(
-// a // b
-// " ++ [27880; 37322]%N ++ runes_of_ascii "
-00) //
-@tag( 42 )	repeatCount { packetx { repeat// @lengthOf(
-f64 x_y_z
-    `doc` //x
-,
-repeat
-    char[65535
-] crc ,} ,
-    u16 A , o @lengthOf( MetaDataX)  `// not a comment`
-    , repeat string  BodyLength `
-`
-    /// triple
-    , }, repeatCount
-@lengthOf( chars)
-,  match //	t
-uint8x
-    as As  {007 :
-Packet """"  : Header 3
-:zchar 7
-// packet A { u8 x, }
-// " ++ [27880; 37322]%N ++ runes_of_ascii "
-:
-u128 , [ 4294967296 ,	""x y"" // " ++ [128512]%N ++ runes_of_ascii " emoji
-]
-:
-crc
-[ ""1"" ,
-    00]:
-//x
-// @lengthOf(
-int ,	}
-,
-@lengthOf( Foo ) repeat // " ++ [128512]%N ++ runes_of_ascii " emoji
-u
-{string float
-// packet A { u8 x, }
-/// triple
-,  string matchKey
-    @calculatedFrom( ""it's"" // " ++ [128512]%N ++ runes_of_ascii " emoji
-)  `it's` ,
-    repeat Packet repeatCount
-    ,
-    }, @lengthOf( T)
-A
-    //x
-    @lengthOf( rootA // c
-) `` ,
-    repeatCount // " ++ [128512]%N ++ runes_of_ascii " emoji
-@calculatedFrom( ""packet"" ) , char[] x
-// `tick` ""quote"" 'q'
-// packet A { u8 x, }
-@calculatedFrom( ""abc"" ) `crlf
-line` , }packet
-i8i8
-// c
-// trailing space 
-{} options{ MetaDataX=true ;//x
-charz	=
-    true ; }
-")).
-Eval vm_compute in ("<<<M582>>>" ++ check (runes_of_ascii "root packet u128
-    {@lengthOf( chars ) repeat u128
-{ repeat	char[
-//	t
-// trailing space 
-007
-// packet A { u8 x, }
-/// triple
-] falsey ,
-zchar[ 00 ]
-crc , uint8x @lengthOf(
-    Logon ) `" ++ [28040; 24687; 31867; 22411]%N ++ runes_of_ascii "`
-,	zchar[ 0123456789]lengthOf @lengthOf( f32a ),} , repeat/// triple
-char[42
-    ] float , int16 u
-/// triple
-// `tick` ""quote"" 'q'
-``
-    , @leftPad (
-)
-    zchar {
-    int8 f32a `u8 x,`,
-    } , @lengthOf(
-msg_type  )
-options1 { string roots@calculatedFrom(""" ++ [233]%N ++ runes_of_ascii "t" ++ [233]%N ++ runes_of_ascii """
-    ) `// not a comment` , }
-, Header Packet , @calculatedFrom( """ ++ [233]%N ++ runes_of_ascii "t" ++ [233]%N ++ runes_of_ascii """)  Z9_ { float {
-    char[]pack @calculatedFrom( ""a\""b"" )
-    `two words` , match Pad as body {
-0123456789 : body ,
-// " ++ [27880; 37322]%N ++ runes_of_ascii "
-// a // b
-[// packet A { u8 x, }
-""it's""	,""x y"" , """ ++ [128512]%N ++ runes_of_ascii """
-// @lengthOf(
-// @lengthOf(
-, 65535 ,""""
-]
-//	t
-// " ++ [128512]%N ++ runes_of_ascii " emoji
-: crc , ""abc""
-    //x
-    : msg_type, // @lengthOf(
-""" ++ [233]%N ++ runes_of_ascii "t" ++ [233]%N ++ runes_of_ascii """ :lengthOf , 3 : Logon ,
-    [  ""a\\"" ] : u128 ,
-// a // b
-/// triple
-} ,
-    } , MetaDataX{ rootA {repeat char[1
-] Pad , }, }
-    ,
-x  ,	}
-//	t
-// a // b
-, repeat// " ++ [128512]%N ++ runes_of_ascii " emoji
-chars , //	t
-u16 As ,}
-")).
-Eval vm_compute in ("<<<M3784>>>" ++ check (runes_of_ascii "options {
-    StringPrefixLenType = u8;
-    ArrayPrefixLenType = u32;
-    FixedStringPadFromLeft = false;
-    FixedStringPadChar = ' ';
-}
-
-packet Party {
-    repeat i16 Qty,
-    repeat string Tail,
-    i8 OrderId,
-    i8 msgKind,
-}
-
-packet Ack {
-    Party,
-    repeat InRef20 {
-        Party,
-        int8 tag7,
-        char[5] OrderId,
-        zchar[7] Tail,
-        char[] count,
-        InPrice45 {
-            Party,
-            char[1] Px,
-        },
-    },
-    char[12] price,
-    int8 sym,
-}
-
-packet Reject {
-    repeat InPrice47 {
-        Party,
-    },
-    zchar[4] x,
-    repeat Ack,
-    zchar[2] Ref,
-    repeat Party,
-}
-
-packet Cancel {
-    Reject,
-    repeat string f1,
-    uint16 OrderId,
-    u8 Acct,
-    int8 msgKind,
-}
-
-root packet Fill {
-    u8 count,
-    char[] tag7,
-    zchar[7] Acct,
-    u32 OrderId,
-    u32 Note @lengthOf(Body),
-    match OrderId as Body {
-        106 : Cancel,
-        196 : Reject,
-        74 : Party,
-        75 : Ack,
-    },
-}")).
-Eval vm_compute in ("<<<M1190>>>" ++ check (runes_of_ascii "packet
-    // a // b
-    leftPad{ matchKey crc ,
-@lengthOf( u128
-) repeat char[ 007
-    ]a1 `
-`
-,
-repeat// " ++ [128512]%N ++ runes_of_ascii " emoji
-Z9_ _x ,@tag(
-42	)@lengthOf( body)@lengthOf( uint8x
-    )
-repeat
-As{matchKey , lengthOf@calculatedFrom(
-    // packet A { u8 x, }
-    ""it's""
-    ) , repeat zchar[
-255
-]
-body
-, char[] u
-    @lengthOf( A )
-    , }, @leftPad(
-    '0'
-    ) string body // @lengthOf(
-`// not a comment` , }packet x_y_z  { } root packet
-T{repeat char[ 3] Logon
-    // trailing space 
-    , //x
-float	@lengthOf(
-    roots)
-`{ , }` ,_x T // " ++ [128512]%N ++ runes_of_ascii " emoji
-`` , }packet Pad {
-@calculatedFrom(""packet"") u16 repeatCount @calculatedFrom( """ ++ [233]%N ++ runes_of_ascii "t" ++ [233]%N ++ runes_of_ascii """ )`// not a comment`
-,
-@tag( 3 )
-    zchar[ 4294967296
-]	repeatCount
-    ,
-    } MetaData body {// packet A { u8 x, }
-u32
-matchKey , T
-repeatCount // " ++ [128512]%N ++ runes_of_ascii " emoji
-`
-` , char[ // c
-007
-    // trailing space 
-    ]
-tag, i8i8 // " ++ [128512]%N ++ runes_of_ascii " emoji
-asx, int u8x
-, int32
-Logon	`say ""hi""` // " ++ [128512]%N ++ runes_of_ascii " emoji
-, }")).
-Eval vm_compute in ("<<<M1245>>>" ++ check (runes_of_ascii "MetaData As {
-    roots repeatCount	, char // `tick` ""quote"" 'q'
-trueish , zchar[
-255	]  u128  `crlf
-line` , char[]  int,asx u128
-    `say ""hi""`,	i32
-    packetx
-,}
-options {A
-    = false;packetx =char[0 ]	A
-    =
-true
-crc = // " ++ [128512]%N ++ runes_of_ascii " emoji
-1 ;
-calculatedFrom  = // @lengthOf(
-""" ++ [233]%N ++ runes_of_ascii "t" ++ [233]%N ++ runes_of_ascii """} MetaData i8i8 { }
-    packet len {
-    @tag(00 )// packet A { u8 x, }
-uint64 stringy	@lengthOf( x_y_z) , } packet rootA
-{ // trailing space 
-@lengthOf( zchar ) char
-_x@lengthOf( x_y_z) ,//	t
-string_ @calculatedFrom(""" ++ [233]%N ++ runes_of_ascii "t" ++ [233]%N ++ runes_of_ascii """ ) /// triple
-, // " ++ [128512]%N ++ runes_of_ascii " emoji
-@lengthOf( A
-    // " ++ [128512]%N ++ runes_of_ascii " emoji
-    ) x_y_z //x
-{ Pad
-    , match
-trueish as u8x {
-    4294967296 : u
-// trailing space 
-/// triple
-, 3
-:
-int 00 : //	t
-u8x
-    // trailing space 
-    , [
-// packet A { u8 x, }
-// `tick` ""quote"" 'q'
-""{,}""
-, ""a	b"" //	t
-,
-0 ,3
-,0123456789
-, ""a\""b"" ]
-:body ,
-    65535 :
-T
-    , } , }
-    , i32 chars , }")).
-Eval vm_compute in ("<<<M451>>>" ++ check (runes_of_ascii "// packet A { u8 x, }
-MetaData f32a{ int64 i8i8
-, u64
-Packet
-    `` ,  falsey// @lengthOf(
-_x
-    ,// trailing space 
-tag roots``,uint32 // packet A { u8 x, }
-Foo `two words`
-,
-char[]asx ,
-}packet options1 {
-    char[  00
-]
-    u128,
-//x
-// a // b
-@calculatedFrom( ""`tick`"" )
-Header @calculatedFrom(  ""1""	) ,
-@leftPad ( ) match// " ++ [128512]%N ++ runes_of_ascii " emoji
-u// `tick` ""quote"" 'q'
-as
-    o {
-[ ""a\\""
-    // trailing space 
-    ] :
-// packet A { u8 x, }
-// " ++ [128512]%N ++ runes_of_ascii " emoji
-stringy	""abc""// packet A { u8 x, }
-:	f32a
-,
-} ,	f64 x_y_z
-@lengthOf( o )  ,	repeat
-    char[  00	] //x
-int
-`
-` , char[]options1 `{ , }`
-,// `tick` ""quote"" 'q'
-zchar[ // c
-00 ]	charz// a // b
-,
-    char[]
-    MetaDataX `a\`
-    ,
-match packetx	as zchar { [10 , 1 ] :
-    i8i8 , ""CRC32""
-:
-// `tick` ""quote"" 'q'
-//	t
-Logon
-// `tick` ""quote"" 'q'
-// @lengthOf(
-, } , }
-//	t
-")).
-Eval vm_compute in ("<<<M514>>>" ++ check (runes_of_ascii "root packet As { @tag(
-    4294967296 )
-packetx // packet A { u8 x, }
-, @calculatedFrom(
-""" ++ [128512]%N ++ runes_of_ascii """ )i32 crc // " ++ [128512]%N ++ runes_of_ascii " emoji
-, @lengthOf( x_y_z )@lengthOf(
-    // a // b
-    body
-// a // b
-// c
-) BodyLength {
-match repeatCount
-    as int
-    { ""\" ++ [233]%N ++ runes_of_ascii """:body , // packet A { u8 x, }
-""// no comment""  : falsey
-,""abc"" :
-tag ""a	b"":zchar,
-    // trailing space 
-    007 : Packet ,}	, // " ++ [128512]%N ++ runes_of_ascii " emoji
-} , repeat falsey trueish
-    ,
-@leftPad(
-    ' '
-)
-@lengthOf(// packet A { u8 x, }
-Logon )
-@leftPad ( )int@lengthOf( u8x ), zchar[
-// " ++ [27880; 37322]%N ++ runes_of_ascii "
-// packet A { u8 x, }
-007 ]falsey ,
-    @rightPad
-() float @lengthOf( Logon ) , @rightPad( '\x00' ) @calculatedFrom( /// triple
-""a	b"" )Z9_ u8x, @tag( 3 ) string_ u128, }options  {
-u128 = ""it's"" ;
-metadata =  ""abc""string_
-    =
-    true	;f32a= // c
-true }
-packet i8i8{
-}
-")).
-Eval vm_compute in ("<<<M1343>>>" ++ check (runes_of_ascii "MetaData
-    int	{ zchar[  3 ] matchKey ,  zchar[ //	t
-3]
-    Pad, zchar tag
-    ,
-    f64  Z9_`u8 x,`
-, char[ 255 ] f32a ,	} packet
-string_{ @tag(
-    // @lengthOf(
-    42) match metadata as uint8x {
-    ""1"" : x_y_z [ ""\n""
-// c
-//
-]
-:chars ,} //
-,	lengthOf// " ++ [27880; 37322]%N ++ runes_of_ascii "
-{
-    repeat
-i64 pack , repeat
-zchar[ 42
-] body ,//	t
-match metadata
-// `tick` ""quote"" 'q'
-// trailing space 
-as Pad
-{
-1:u8x , [
-    ""packet"" ] : Logon  , ""{,}"" : Header ""1"":// " ++ [128512]%N ++ runes_of_ascii " emoji
-o ,""" ++ [233]%N ++ runes_of_ascii "t" ++ [233]%N ++ runes_of_ascii """ : leftPad ,
-    """ ++ [233]%N ++ runes_of_ascii "t" ++ [233]%N ++ runes_of_ascii """ :
-    As, }
-    , }
-    , @tag( 65535
-)
-repeat// trailing space 
-uint8 chars
-,@tag(	3 ) @rightPad /// triple
-( ' ' ) @leftPad
-    ( ' ') u64 stringy
-//	t
-// @lengthOf(
-, @rightPad
-    ( ' ' ) repeat Header `line1
-line2` ,
-@rightPad( ' '
-)repeat string charz , } 	 ")).
-Eval vm_compute in ("<<<M1011>>>" ++ check (runes_of_ascii "root	packet
-_x { falsey, } packet BodyLength
-{
-    /// triple
-    float32 u ,@calculatedFrom( ""a\\""  ) roots @lengthOf(
-x_y_z) , options1 Pad
-`u8 x,`,
-@tag(
-0 )
-    char[ 1
-]T
-    , }  packet u128 { repeat
-u8
-// " ++ [128512]%N ++ runes_of_ascii " emoji
-//
-x, match
-    u8x as //	t
-u8x
-{
-    """" : float[
-0123456789 ] : pack , }
-,
-// `tick` ""quote"" 'q'
-// " ++ [27880; 37322]%N ++ runes_of_ascii "
-repeat
-float32 lengthOf, // packet A { u8 x, }
-}packet
-    //
-    Header { match	len // " ++ [27880; 37322]%N ++ runes_of_ascii "
-as	Foo
-    { [
-    42 , 4294967296	,
-    ""a	b"" ] :int 0  : u128 , [ ""\n"" ,
-    42 ]: Foo , 3 :  float
-,[ ""a\\"" ,	""`tick`""// " ++ [27880; 37322]%N ++ runes_of_ascii "
-, // packet A { u8 x, }
-""// no comment"", 7, 3	] : x
-, [ 65535 , ""a\\""
-    // packet A { u8 x, }
-    ,	""a\\"" , ""it's""
-    , """ ++ [28040; 24687]%N ++ runes_of_ascii """ , ""a\""b"" , ""{,}""]
-    : msg_type , } ,
-}
-")).
-Eval vm_compute in ("<<<M3597>>>" ++ check (runes_of_ascii "// top
-  packet
-
-// c0
-    	Sub	{u8
-// c3
-      a 	 // c4a
-  // c4b
-		, 
-    // c5
-@calculatedFrom( 	 // c6
-		""CRC16""	// c7
-  	) 	 // c8a
-// c8b
-	i16 	 // c9a
-  // c9b
-  SubSum 
-      // c10
-
-  ,	} 	 // c12
-root  packet
-    // c14
-	Frame	{ 	 // c16a
-    // c16b
-	u16	// c17a
-      // c17b
-    	MsgType, u16 
-
-    // c20
-BodyLen	@lengthOf(
-    // c22
-  Body // c23a
-	// c23b
-    	)	// c24a
-    // c24b
-	,
-Sub// c26a
-  // c26b
-	Body  // c27
-  ,
-	    // c28
-	  string 
-note 	 // c30
-  	,@calculatedFrom(// c32
-  ""CRC16""  // c33
-		)  // c34a
-  // c34b
-	  i16  // c35a
-    // c35b
-
-Checksum  // c36a
-	  // c36b
-, u8
-
-    tail // c39
-    	, // c40
-	} // c41a
-// c41b
- 
-")).
-Eval vm_compute in ("<<<M28>>>" ++ check (runes_of_ascii "root
-// c
-// packet A { u8 x, }
-packet
-    // packet A { u8 x, }
-    f32a {@rightPad ()// packet A { u8 x, }
-options1 ,uint64
-    MetaDataX ,
-x_y_z `two words` ,
-// packet A { u8 x, }
-// trailing space 
-i8i8
-    `" ++ [28040; 24687; 31867; 22411]%N ++ runes_of_ascii "` ,int16 f32a@lengthOf( zchar	) ,}
-//x
-//x
-root
-    packet u8x { @rightPad	(
-' ' ) repeat a1
-    { repeat string_ stringy  ,
-    } , stringy// `tick` ""quote"" 'q'
-a1
-`// not a comment` ,
-@tag(	4294967296 ) float64 o, @lengthOf(a1 )
-repeat string_ {
-    // `tick` ""quote"" 'q'
-    match BodyLength// trailing space 
-as int {65535:u
-, } , pack
-    options1`a\` ,
-repeat lengthOf	matchKey , }
-    , repeat
-char[65535 ] BodyLength
-    , }
-")).
-Eval vm_compute in ("<<<M4189>>>" ++ check (runes_of_ascii "options  // c
-    	{ msg_type
-	=	//	t
-
-1  ;
-// a // b
-      _x
-= 
-// packet A { u8 x, }
-  char[]
-    ;  // a // b
-pack= ' ';}
-	MetaData
-    i8i8
-
-    {  i8i8	// " ++ [27880; 37322]%N ++ runes_of_ascii "
-
-roots
-    ,
-    options1 
-    // " ++ [27880; 37322]%N ++ runes_of_ascii "
-lengthOf
-, 
-_x
-Z9_`// not a comment`
-,	x
-    i8i8`{ , }`	,
-leftPad
-BodyLength 
-/// triple
-  ,	}
-root packet 
-tag
-
-    {
-
-zchar[ 4294967296 ] 
-// packet A { u8 x, }
-  /// triple
-
-  Z9_
-
-@calculatedFrom( ""abc""  ) 
-`" ++ [28040; 24687; 31867; 22411]%N ++ runes_of_ascii "` , 
-char
-
-    BodyLength @calculatedFrom( 
-""\n"" )
-	`// not a comment`
-,
-@leftPad 	 // c
-    (
-' ' 	 // c
-	)
-	@rightPad(  )repeat MetaDataX
-	u `" ++ [233]%N ++ runes_of_ascii "`  , }	MetaData tag
-
-    { u64
-
-x_y_z
-	`
-`  ,
-
-} ")).
-Eval vm_compute in ("<<<M4516>>>" ++ check (runes_of_ascii "
-// top
-		MetaData  // c0
-
-x_y_z 	 // c1
-{// c2
-  char 	 // c3
-
-  body	// c4
-,	// c5
-  f64	// c6
-    	i8i8 // c7
-		`two words`// c8
-,// c9
-    body // c10
-  body  // c11
-  `" ++ [28040; 24687; 31867; 22411]%N ++ runes_of_ascii "` 	 // c12
-    , // c13
-  }  // c14
-
-root	// c15
-    	packet// c16
-		chars  // c17
-
-{ 	 // c18
-
-@lengthOf(// c19
-    	i64_ 	 // c20
-  ) // c21
-
-	chars // c22
-,  // c23
-  i8i8 // c24
-
-	{ // c25
-	falsey // c26
-  @lengthOf(// c27
-  stringy	// c28
-)  // c29
-    `doc`  // c30
-  , // c31
-}	// c32
-    ,// c33
-  	x	// c34
-      @lengthOf(// c35
-    A 	 // c36
-	)  // c37
-
-`crlf
-line` // c38
-  ,  // c39
-    } // c40
-")).
-Eval vm_compute in ("<<<M4069>>>" ++ check (runes_of_ascii "packet T {
-    @calculatedFrom(""\" ++ [233]%N ++ runes_of_ascii """)
-    string f32a,
-    repeat f32 falsey,/// triple
-    @leftPad('0')
-    match repeatCount as repeatCount {
-        ""a	b"" : body,
-    },
-    x_y_z @lengthOf(trueish),
-    f64 crc,
-    @calculatedFrom(""x y"")
-    @tag(0)
-    @tag(65535)
-    int16 u128 @lengthOf(string_) `" ++ [233]%N ++ runes_of_ascii "`,
-    @calculatedFrom(""\n"")
-    char[0123456789] Foo @calculatedFrom(""CRC32""),
-    @calculatedFrom(""a\\"")
-    match T as msg_type {
-        [65535, ""x y"", 3, 255, 0] : T,
-        [""CRC32"", ""1"", 3, 10, 65535] : u,
-        4294967296 : a1,
-    },
-}")).
-Eval vm_compute in ("<<<M1216>>>" ++ check (runes_of_ascii "// c
-options {} packet // `tick` ""quote"" 'q'
-msg_type
-    {
-    T @calculatedFrom( ""it's"" ) , @tag( 00
-    //
-    )  match rootA
-    as
-// a // b
-// `tick` ""quote"" 'q'
-charz{ 255 : roots [ ""1"", 7
-    , 00 ] : x }
-    , zchar[  007
-    // c
-    ]  u @calculatedFrom(
-// trailing space 
-//x
-""" ++ [28040; 24687]%N ++ runes_of_ascii """)  ,	match repeatCount as Pad
-    {[ /// triple
-""packet""
-, 1 ,4294967296,""1"" , ""x y""
-    , 42 ] :
-metadata ,
-    [	3 ,65535 ,
-    """",
-007, """ ++ [233]%N ++ runes_of_ascii "t" ++ [233]%N ++ runes_of_ascii """ ,
-    """ ++ [28040; 24687]%N ++ runes_of_ascii """, // c
-""CRC32""
-    // " ++ [128512]%N ++ runes_of_ascii " emoji
-    ]
-    :
-    pack
-""\" ++ [233]%N ++ runes_of_ascii """
-: Packet }, }
-
-")).
-Eval vm_compute in ("<<<M3790>>>" ++ check (runes_of_ascii "packet Logon {
-    @calculatedFrom(""a	b"")
-    repeat options1,
-    @calculatedFrom(""a\\"")
-    // c
-    char[] options1 `it's`,
-    @tag(4294967296)
-    repeat Logon {
-        match trueish as u128 {
-            ""x y"" : i64_,
-            [4294967296, 007, 10] : i8i8,
-        },
-        //
-        // @lengthOf(
-        T `u8 x,`,
-        repeat uint64 T `u8 x,`,
-    },
-}
-
-options {
-    u128 = '0'
-    tag = true;
-    Packet = char[0123456789];
-    Foo = 007
-    body = 3;
-}
-
-packet i64_ {
-}
-//x")).
-Eval vm_compute in ("<<<M816>>>" ++ check (runes_of_ascii "options {
-Packet=
-false ; BodyLength=
-007
+    , ""a\\"" ,7, 65535 , 3 ]
+    :x_y_z
+    , 0123456789 : o , ""\" ++ [233]%N ++ runes_of_ascii """ : x ""CRC32"" :
+Foo,
+    }, char Header`u8 x,` ,
+    } //	t
+options	{
+    } packet
     //	t
-    rootA =
-char[	255 ] ; uint8x= true;
-// trailing space 
-//	t
-}
-    packet msg_type { @calculatedFrom(""a\""b"" ) @leftPad ( ) repeat
-    char[]
-rootA, char[	7 ]
-    // a // b
-    Packet
-, @leftPad ( ' ' )
-    u64
-metadata @calculatedFrom( ""x y"") ,
-@tag( 42 )match lengthOf as f32a{
-[ ""// no comment"" ,""\" ++ [233]%N ++ runes_of_ascii """ ,42 , ""\n""]:	metadata,
-// packet A { u8 x, }
-//
-4294967296
-:
-trueish ,
-007:
-rootA ,
-007 :	float  """"  : body, }, }")).
-Eval vm_compute in ("<<<M1050>>>" ++ check (runes_of_ascii "root packet roots
-    { }
-    packet
-    As {
-    @calculatedFrom(
-""" ++ [28040; 24687]%N ++ runes_of_ascii """ ) i16 msg_type`" ++ [28040; 24687; 31867; 22411]%N ++ runes_of_ascii "`
-, repeat // trailing space 
-repeatCount
-{ repeat pack msg_type `crlf
-line` , //
-match repeatCount as
-_x{ ""`tick`"": // a // b
-trueish ,// c
-[
-    ""\n""
-, 65535
-, 255 ,
-    ""abc""  , 0123456789 ] :	options1, } //
-, //x
-} , }
-// trailing space 
-//
-MetaData x_y_z{
-options1
-chars ,int32
-leftPad `{ , }` , string
-    i64_ `say ""hi""` , int32 BodyLength `a\`
-,	}
-")).
-Eval vm_compute in ("<<<M30>>>" ++ check (runes_of_ascii "packet  chars { zchar[ 10
-    ]x
-@lengthOf( repeatCount )
-    ,
-repeat
-    metadata{
-string int ,repeat
-matchKey //x
-, match leftPad as o { 0 : matchKey
-    // " ++ [27880; 37322]%N ++ runes_of_ascii "
-    ,
-[ 0 ]
-: float 0 : packetx// " ++ [128512]%N ++ runes_of_ascii " emoji
-255 :i64_
-    ,//	t
-[0 , 007 , ""a\\"" ,
-    //	t
-    """ ++ [128512]%N ++ runes_of_ascii """
-    ,
-65535  , 255 ]
-:
-charz ,	255 : u,	} , },  @rightPad( ' ' )
-// packet A { u8 x, }
-// " ++ [128512]%N ++ runes_of_ascii " emoji
-@tag( 255
-) // c
-@rightPad
-(	' ' ) u16 falsey,}options
-    { f32a
-= """ ++ [128512]%N ++ runes_of_ascii """ ;	}
-")).
-Eval vm_compute in ("<<<M4380>>>" ++ check (runes_of_ascii "packet Pad {
-    i16 A @calculatedFrom(""a\""b""),
-}
-
-packet roots {
-    @tag(65535)
-    repeat f32a {
-        char[00] a1 @calculatedFrom(""a\\""),
-        float32 x_y_z,
-        len {
-            // `tick` ""quote"" 'q'
-            // c
-            stringy u8x `
-            `,
-        },
-        f32 Foo @calculatedFrom(""a\""b""),
-    },
-    @calculatedFrom(""1"")
-    u64 calculatedFrom,
-    u32 u8x,
-    u32 calculatedFrom ``,
-}")).
-Eval vm_compute in ("<<<M720>>>" ++ check (runes_of_ascii "packet crc{ @tag(
-255 )	u64	int//x
-,	As len , stringy @lengthOf( A// `tick` ""quote"" 'q'
-) `line1
-line2` ,
-    match
-// a // b
-// " ++ [27880; 37322]%N ++ runes_of_ascii "
-a1
-as  o{ """" :	Header , ""packet""// a // b
-: i8i8  ,	""" ++ [128512]%N ++ runes_of_ascii """ : body ,
-[ ""`tick`"" ]: // trailing space 
-i64_
-, ""CRC32"" :BodyLength
-    // c
-    ""{,}"": _x ,}
-    ,	o, @tag(
-42 // " ++ [27880; 37322]%N ++ runes_of_ascii "
-) packetx
-{ zchar[ 00 ]
-// c
-// packet A { u8 x, }
-stringy
-    ,
-    } ,
-    // " ++ [128512]%N ++ runes_of_ascii " emoji
-    } 	 ")).
-Eval vm_compute in ("<<<M367>>>" ++ check (runes_of_ascii "packet	T  {
-/// triple
-// @lengthOf(
-@tag( 007 )
-T
-    @calculatedFrom( ""CRC32"")
-//	t
-//
-, @tag( // " ++ [27880; 37322]%N ++ runes_of_ascii "
-65535	) repeat
-    tag { a1 @calculatedFrom( ""a\""b"" )	, }
-,
-As
-    {
-    char[ //	t
-007 ] lengthOf , char[]x @lengthOf(crc )`` ,  repeat
-i8
-    matchKey , tag Z9_ , } ,repeat
-// c
-/// triple
-uint64
-zchar
-    // packet A { u8 x, }
-    `doc` ,	@tag(255
-)repeat zchar[ 7 ]lengthOf
-, }")).
-Eval vm_compute in ("<<<M991>>>" ++ check (runes_of_ascii "packet // packet A { u8 x, }
-Pad { repeat u8 f32a ,
-string_ { char[ 42 ] // a // b
-As
-    , repeat uint16 asx , repeat
-    zchar[ 65535 ]
-    a1
-    , }
-, }
-// trailing space 
-// @lengthOf(
-MetaData
-    rootA { }MetaData _x {
-    char[]
-body ,
-f64 // c
-len ,rootA
-uint8x
-    `
-` ,
-    float f32a , }options{  metadata = char ;
-    //x
-    msg_type = zchar[ 0 ] ;}
-// " ++ [27880; 37322]%N ++ runes_of_ascii "
-")).
-Eval vm_compute in ("<<<M1014>>>" ++ check (runes_of_ascii "// c
-MetaData
-    asx {i64_ f32a /// triple
-,
-stringy	pack
-`` , }MetaData  repeatCount
-//x
-// " ++ [27880; 37322]%N ++ runes_of_ascii "
-{ } options { // `tick` ""quote"" 'q'
-x=7// @lengthOf(
-; Foo
-    //
-    = 42 x = u64 ;/// triple
-x_y_z
-= u16 u8x =// c
-' ' }
-    //x
-    packet len	{
-    @lengthOf(
-    metadata ) @tag( 00 )
-@calculatedFrom( """ ++ [233]%N ++ runes_of_ascii "t" ++ [233]%N ++ runes_of_ascii """ ) len , } MetaData repeatCount { A Z9_,
-} // c")).
-Eval vm_compute in ("<<<M836>>>" ++ check (runes_of_ascii "packet trueish {
-    // trailing space 
-    zchar[
-0
-] o
-@lengthOf( float	), @tag(
-    10
-    )stringy {
-zchar[ 65535  ]
-matchKey
-    ,	}
-    ,
-    @lengthOf(
-//
-//	t
-asx )zchar[
-    10 ] string_
-@calculatedFrom("""" ) `it's`	,
-}options {	rootA //x
-=
-// a // b
-// trailing space 
-""1""
-; }
-    options
-    { body = u32 repeatCount= '\x00' }
-")).
-Eval vm_compute in ("<<<M1172>>>" ++ check (runes_of_ascii "packet
-stringy { @lengthOf(
-Packet ) lengthOf @calculatedFrom(""it's"" ) ,  } MetaData x_y_z{ asx rootA `it's` ,
-float32 // " ++ [128512]%N ++ runes_of_ascii " emoji
-trueish
-//x
-// packet A { u8 x, }
-, o Packet , } options {leftPad =true ; len	= 7 //x
-; Pad
-//	t
-// c
-= 42
-    //x
-    ; chars
-    = 65535 ;A =
-    4294967296} MetaData int
-    /// triple
-    { }")).
-Eval vm_compute in ("<<<M733>>>" ++ check (runes_of_ascii "packet // a // b
-zchar {
-    char[] trueish @calculatedFrom(
-""CRC32""// `tick` ""quote"" 'q'
-), char[]
-    /// triple
-    MetaDataX
-, u8x @lengthOf(leftPad ) `
-`
-/// triple
-// c
-, @leftPad (  '\x00' )u32 u8x
-,} root packet metadata
-{ repeat As , // c
-uint64 trueish , x `two words`,}
-options {metadata =  '0' ; }
-")).
-Eval vm_compute in ("<<<M3286>>>" ++ check (runes_of_ascii "// top
-packet // c0
-u128 // c1
-{ // c2
-@lengthOf( // c3
-body // c4
-) // c5
-match // c6
-x_y_z // c7
-as // c8
-u // c9
-{ // c10
-""x y"" // c11
-: // c12
-i8i8 // c13
-, // c14
-} // c15
-, // c16
-@tag( // c17
-255 // c18
-) // c19
-char[] // c20
-roots // c21
-@lengthOf( // c22
-int // c23
-) // c24
-, // c25
-} // c26
-")).
-Eval vm_compute in ("<<<M1611>>>" ++ check (runes_of_ascii "root packet Foo // " ++ [128512]%N ++ runes_of_ascii " emoji
-{ } options {
-    // a // b
-    tag // `tick` ""quote"" 'q'
-= //	t
-""""
-    ; u8x = zchar[0  ] }
-MetaData
-    int {zchar[ 10]
-lengthO@tagf	`` , i64 u8x`// not a comment` ,MetaDataX pack// `tick` ""quote"" 'q'
-`crlf
-line`
-, Logon charz `crlf
-line`
-    ,
-    // a // b
-    }
-")).
-Eval vm_compute in ("<<<M1547>>>" ++ check (runes_of_ascii "root packet Foo // " ++ [128512]%N ++ runes_of_ascii " emoji
-{ } options {
-    // a // b
-    tag // `tick` ""quote"" 'q'
-= //	t
-""""
-    ; u8x = zchar[0  ] }
-MetaData
-    int {zchar[ 10]
-lengthOf	`` , i64 65535`// not a comment` ,MetaDataX pack// `tick` ""quote"" 'q'
-`crlf
-line`
-, Logon charz `crlf
-line`
-    ,
-    // a // b
-    }
-")).
-Eval vm_compute in ("<<<M1431>>>" ++ check (runes_of_ascii "root packet Foo // " ++ [128512]%N ++ runes_of_ascii " emoji
-{ options } {
-    // a // b
-    tag // `tick` ""quote"" 'q'
-= //	t
-""""
-    ; u8x = zchar[0  ] }
-MetaData
-    int {zchar[ 10]
-lengthOf	`` , i64 u8x`// not a comment` ,MetaDataX pack// `tick` ""quote"" 'q'
-`crlf
-line`
-, Logon charz `crlf
-line`
-    ,
-    // a // b
-    }
-")).
-Eval vm_compute in ("<<<M1591>>>" ++ check (runes_of_ascii "root packet Foo // " ++ [128512]%N ++ runes_of_ascii " emoji
-{ } options {
-    // a // b
-    tag // `tick` ""quote"" 'q'
-= //	t
-""""
-    ; u8x = zchar[0  ] }
-MetaData
-    int {zchar[ 10]
-lengthOf	`` , i64 u8x`// not a comment` ,MetaDataX pack// `tick` ""quote"" 'q'
-`crlf
-line`
-, Logon charz ,
-    `crlf
-line`
-    // a // b
-    }
-")).
-Eval vm_compute in ("<<<M1512>>>" ++ check (runes_of_ascii "root packet Foo // " ++ [128512]%N ++ runes_of_ascii " emoji
-{ } options {
-    // a // b
-    tag // `tick` ""quote"" 'q'
-= //	t
-""""
-    ; u8x = zchar[0  ] }
-MetaData
-    int {true 10]
-lengthOf	`` , i64 u8x`// not a comment` ,MetaDataX pack// `tick` ""quote"" 'q'
-`crlf
-line`
-, Logon charz `crlf
-line`
-    ,
-    // a // b
-    }
-")).
-Eval vm_compute in ("<<<M4236>>>" ++ check (runes_of_ascii "
-packet
-msg_type  // trailing space 
-  { match	leftPad	as
-
-float {
-    3// packet A { u8 x, }
-	:	repeatCount // trailing space 
-  ,
-[0123456789, 
-	    // a // b
-      3
-, 10
-,
-    65535
-
-    , // c
-1 ] :Header
-
-    , 
-""{,}"" :packetx ,
-	0	// @lengthOf(
-:
-
-    _x//	t
-  , } , 
-}")).
-Eval vm_compute in ("<<<M3858>>>" ++ check (runes_of_ascii "options 
-{	LittleEndian
-
-    = true
-    ;  }
-
-    packet Logon {
-u8
-    x
-,
-
-string
-
-    user	, }
-	packet Logout{
-u16 reason ,
-}packet
-	Empty { } 
-root packet
-    Frame
-    {u16
-	MsgType 
-, 
-@lengthOf(	Body )u8 BodyLen
-
-, 
-u8
-
-flags
-, Logon  Body
-	,  u32
-	trailer 
-, } ")).
-Eval vm_compute in ("<<<M4324>>>" ++ check (runes_of_ascii "MetaData i64_ {
-    char[255] tag,
-    uint32 Z9_,
-    T options1 `a\`,
-    options1 Pad,
-    f32 leftPad `line1
-    line2`,
-}
-
-options {
-}
-
-root packet uint8x {
-    // `tick` ""quote"" 'q'
-    @lengthOf(float)
-    falsey int `
-    `,
-}
-
-MetaData A {
-    u8 Packet,
-}")).
-Eval vm_compute in ("<<<M1593>>>" ++ check (runes_of_ascii "root packet Foo // " ++ [128512]%N ++ runes_of_ascii " emoji
-{ } options {
-    // a // b
-    tag // `tick` ""quote"" 'q'
-= //	t
-""""
-    ; u8x = zchar[0  ] }
-MetaData
-    int {zchar[ 10]
-lengthOf	`` , i64 u8x`// not a comment` ,MetaDataX pack// `tick` ""quote"" 'q'
-`crlf
-line`
-, Logon charz")).
-Eval vm_compute in ("<<<M47>>>" ++ check (runes_of_ascii "  root packet rootA { @leftPad
-(
-'\x00' // `tick` ""quote"" 'q'
-) @lengthOf(
-    crc ) @lengthOf( string_ ) uint16 Z9_ `
-`	, @lengthOf( Z9_ )char[4294967296
-    ]  zchar `say ""hi""` ,
-    u, match
-int as
-    stringy {
+    As{zchar[
+    // @lengthOf(
+    10	] roots ,
+    char[7 ]
+calculatedFrom //
+@lengthOf( body ), char stringy	@lengthOf(metadata /// triple
+) ,
+Pad // trailing space 
+u128 , @calculatedFrom( ""it's"") Z9_ ,  match
+falsey	as /// triple
+MetaDataX
+    { 4294967296 : float,//x
 3 :
-    body, }
-    ,	} 	 ")).
-Eval vm_compute in ("<<<M3443>>>" ++ check (runes_of_ascii "// top
-packet // c0a
-  // c0b
-B // c1a
-  // c1b
-{ u8 // c3a
-  // c3b
-a // c4
-, string
-    // c6
-s , // c8
-} // c9
-root
-    // c10
-packet // c11
-P // c12
-{ u16 L @lengthOf( B ) , // c19
-B // c20a
-  // c20b
-, u8
-    // c22
-t , } // c25
-")).
-Eval vm_compute in ("<<<M4050>>>" ++ check (runes_of_ascii "packet calculatedFrom {
-    @lengthOf(zchar)
-    char[] chars `line1
-        line2`,
-    string Logon @calculatedFrom(""it's""),
-    matchKey `say ""hi""`,
-    @lengthOf(T)
-    x_y_z @calculatedFrom(""it's"") `// not a comment`,
-}")).
-Eval vm_compute in ("<<<M2343>>>" ++ check (runes_of_ascii "MetaData Packet { }packet	asx  { @lengthOf( asx) falsey`crlf
-line`
+    Pad 1
+:T,} /// triple
 ,
-    }
-    packet x	{uint32// @lengthOf(
-rootA	,u32 options1 `say ""hi""` , @tag( 7
-    options// packet A { u8 x, }
-msg_type @lengthOf(
-stringy	)	, }
-
-")).
-Eval vm_compute in ("<<<M2313>>>" ++ check (runes_of_ascii "MetaData Packet { }packet	asx  { @lengthOf( asx) falsey`crlf
-line`
-,
-    }
-    packet x	{uint32// @lengthOf(
-rootA	,@tag( options1 `say ""hi""` , @tag( 7
-    )// packet A { u8 x, }
-msg_type @lengthOf(
-stringy	)	, }
-
-")).
-Eval vm_compute in ("<<<M2227>>>" ++ check (runes_of_ascii "MetaData Packet { packet}	asx  { @lengthOf( asx) falsey`crlf
-line`
-,
-    }
-    packet x	{uint32// @lengthOf(
-rootA	,u32 options1 `say ""hi""` , @tag( 7
-    )// packet A { u8 x, }
-msg_type @lengthOf(
-stringy	)	, }
-
-")).
-Eval vm_compute in ("<<<M2220>>>" ++ check (runes_of_ascii "MetaData Packet  }packet	asx  { @lengthOf( asx) falsey`crlf
-line`
-,
-    }
-    packet x	{uint32// @lengthOf(
-rootA	,u32 options1 `say ""hi""` , @tag( 7
-    )// packet A { u8 x, }
-msg_type @lengthOf(
-stringy	)	, }
-
-")).
-Eval vm_compute in ("<<<M1333>>>" ++ check (runes_of_ascii "options { BodyLength
-=' ' zchar = true; calculatedFrom = float64
-    T =  ' ' ; // c
+    @tag(
+3 ) char[]
+A @calculatedFrom( ""it's""
+) ,  o tag ,
+@lengthOf( x // packet A { u8 x, }
+) zchar[ 4294967296
+    ]
+    rootA // @lengthOf(
+`
+` , } root packet Logon {	repeat _x {leftPad  `crlf
+line` ,
 }
-packet i64_ {
-    repeat zchar[
-    3
-] roots `say ""hi""`
-    ,zchar[ 65535 ] Z9_ @lengthOf( msg_type
-    ) `two words`, }
-")).
-Eval vm_compute in ("<<<M2315>>>" ++ check (runes_of_ascii "MetaData Packet { }packet	asx  { @lengthOf( asx) falsey`crlf
-line`
-,
-    }
-    packet x	{uint32// @lengthOf(
-rootA	,u32  `say ""hi""` , @tag( 7
-    )// packet A { u8 x, }
-msg_type @lengthOf(
-stringy	)	, }
-
-")).
-Eval vm_compute in ("<<<M4149>>>" ++ check (runes_of_ascii "
-// top
-	MetaData 
-
-// c0
-_x 
-// c1
-
-  {
-	    // c2
-    zchar[
-	    // c3
-    	4294967296  
-  // c4
-] 
-    // c5
-	lengthOf 
-// c6
-  `// not a comment`
-
-    // c7
-  , 
-	// c8
-    } 
-    // c9")).
-Eval vm_compute in ("<<<M1376>>>" ++ check (runes_of_ascii "packet _x
-{ repeat packetx {match Pad
-    as
-// c
-// a // b
-roots {""// no comment"" :
-    tag
-,[ """ ++ [233]%N ++ runes_of_ascii "t" ++ [233]%N ++ runes_of_ascii """, ""\" ++ [233]%N ++ runes_of_ascii """
-    ]:	As	,3	:  options1 ,3 : charz ,
-    } , //
-} , repeat
-    Foo`line1
-line2`, }")).
-Eval vm_compute in ("<<<M1231>>>" ++ check (runes_of_ascii "packet
-    T { @leftPad
-( ' ' )
-    // " ++ [27880; 37322]%N ++ runes_of_ascii "
-    int32
-// " ++ [27880; 37322]%N ++ runes_of_ascii "
-// @lengthOf(
-packetx
-`" ++ [233]%N ++ runes_of_ascii "`
-    ,uint16 MetaDataX
-@lengthOf( asx
-// packet A { u8 x, }
-// a // b
-)// `tick` ""quote"" 'q'
-,
-    }")).
-Eval vm_compute in ("<<<M3470>>>" ++ check (runes_of_ascii "
-packet
-A { u8	a
-	,
-	} packet 
-B 
-{
-u16 b	, } root packet
-P  {
-	u8
-	K1
-
-    ,
-
-u8	K2 , match K1  as
-M1
-{1
-    :A
-, 
-} ,	match K2 
+    , repeat i8 Packet  , MetaDataX`// not a comment`// " ++ [27880; 37322]%N ++ runes_of_ascii "
+, asx`two words` ,
+repeat lengthOf tag , @calculatedFrom( // `tick` ""quote"" 'q'
+""CRC32"" ) // @lengthOf(
+match repeatCount// packet A { u8 x, }
 as
-
-    M2	{
-1	:
-
-    B,
-	}
-    , 
-} ")).
-Eval vm_compute in ("<<<M1382>>>" ++ check (runes_of_ascii "packet  crc {
-@lengthOf(
-    /// triple
-    calculatedFrom
-    /// triple
-    ) i64_ {
-uint64
-    _x,
-} ,
-@rightPad( '0' )
-uint8x ,
-    // packet A { u8 x, }
-    } 	 ")).
-Eval vm_compute in ("<<<M3473>>>" ++ check (runes_of_ascii "
-packet
-    A
-
-{u8
-a
-
-    ,}
-
-packet
-B
-
-{u16 
-b
+BodyLength { """ ++ [128512]%N ++ runes_of_ascii """ : len
+[
+    255
+, ""a\\"", 0123456789 , ""CRC32"", // " ++ [128512]%N ++ runes_of_ascii " emoji
+7, 42
+    // a // b
+    ]
+: repeatCount
 ,
-    }
-
-    root
-    packet
-P	{
-u8 K
-,match
-	K  as 
-M
-
-    {
-	1 :  A  ,	1
-
-    :
-    B ,
-	}
-
-    ,
-
-}")).
-Eval vm_compute in ("<<<M3793>>>" ++ check (runes_of_ascii "
-root packet
-    lengthOf  {
-	char[
-00 
+},
+i64_ msg_type `crlf
+line` , }
+packet repeatCount{
+    @calculatedFrom(
+""a\""b"" )
+    match
+a1 as
+    matchKey// packet A { u8 x, }
+{00 : options1,
+    4294967296
+    : x_y_z , [3 ,
+""a	b"" ,0123456789
+] : i64_ ,
+0 : leftPad ,""`tick`"" :int [""" ++ [28040; 24687]%N ++ runes_of_ascii """ // @lengthOf(
 ]
-
-    x
-@lengthOf(
-matchKey
-)  , 
-
+// trailing space 
+/// triple
+: Z9_, }
+    , }
+")).
+Eval vm_compute in ("<<<M204>>>" ++ check (runes_of_ascii "packet i64_ {
+    @leftPad( ) @tag(	4294967296
+) repeat	string Logon `{ , }`
+    ,@lengthOf(
+    float )u16
+    //x
+    matchKey @lengthOf(
+body
+) , repeat
+    /// triple
+    char[  4294967296 ]
+tag , @lengthOf(asx )
+repeat
+    trueish , repeat
+    lengthOf
+len
+,// packet A { u8 x, }
+match asx
+    as
+    crc {
+    [ // a // b
+""" ++ [28040; 24687]%N ++ runes_of_ascii """
+// trailing space 
+// c
+, ""abc"" ] :
+roots
+, },	match
+    uint8x as
+repeatCount
+    { [
+0123456789
+    ]:
+    /// triple
+    Foo ,""a\""b""
+    : Packet
+    42  :
+    stringy , [ // `tick` ""quote"" 'q'
+0123456789 , 007
+] : f32a , //x
+42: x }
+    // @lengthOf(
+    ,
+@lengthOf( msg_type )
+uint8x , repeat metadata// " ++ [27880; 37322]%N ++ runes_of_ascii "
+,} MetaData float { char[ 42
+] Logon
+`a\` , stringy packetx , int32 pack,rootA
+x
+    , Logon Foo , u16 A
+//	t
+//x
+, } //x
+packet
     //	t
-
-	float64
-	repeatCount	// c
-  	,@lengthOf( 
-zchar
-
-)	char[] roots	,}")).
-Eval vm_compute in ("<<<M833>>>" ++ check (runes_of_ascii "options{ options1	=""\" ++ [233]%N ++ runes_of_ascii """ x =u64 Z9_= '0' calculatedFrom=	char[] ; } root	packet trueish
-    { } packet BodyLength
-    { @leftPad ( )
-u64 _x ,
-    }
+    Header{  @calculatedFrom(
+    ""1"" ) u
+,@tag( 65535
+// a // b
+// trailing space 
+)
+pack { string trueish `" ++ [28040; 24687; 31867; 22411]%N ++ runes_of_ascii "`
+    , match
+stringy
+    as tag
+{  ""a\\"" : float
+    // `tick` ""quote"" 'q'
+    ,
+    ""abc"" :Z9_ ,007 :	metadata, // c
+[ 10 ] :matchKey // " ++ [27880; 37322]%N ++ runes_of_ascii "
+, ""a	b"" : _x 7// " ++ [128512]%N ++ runes_of_ascii " emoji
+:Pad } ,  repeat body
+, f32 int , } ,  MetaDataX u128 `doc` , }
+options {}
 ")).
-Eval vm_compute in ("<<<M4023>>>" ++ check (runes_of_ascii "packet A {
-    match k as n {
-        [
-            1, ""bb"", 007, ""d"", 5,
-            ""f"", 7, ""h"", 9, ""j""
-        ] : B,
-        2 : C,
+Eval vm_compute in ("<<<M1718>>>" ++ check (runes_of_ascii "options {
+    StringPrefixLenType = u32;
+    ArrayPrefixLenType = u8;
+    FixedStringPadFromLeft = false;
+}
+
+packet Logon {
+    i8 venue,
+    int16 f1,
+    zchar[8] Acct,
+    repeat InNote16 {
+        InQty73 {
+            float32 tag7,
+        },
+        f32 Acct,
+        zchar[5] sym,
     },
+    uint16 Side2,
+    i32 lastPx,
+}
+
+packet Fill {
+    repeat InOrderid15 {
+        zchar[8] sym,
+        repeat char[2] OrderId,
+        repeat Logon,
+        InQty82 {
+            char[] Tail,
+            repeat Logon,
+            float64 price,
+            f64 Side2,
+        },
+        char[12] venue,
+        char[4] Px,
+    },
+    @rightPad('0')
+    char[2] venue,
+    InPrice99 {
+        InAcct72 {
+            u8 pad0,
+        },
+        u32 OrderId,
+        Logon,
+    },
+}
+
+root packet Reject {
+    zchar[9] msgKind,
+    u32 venue,
+    u16 seqNo @lengthOf(Body),
+    match venue as Body {
+        57 : Fill,
+        8 : Logon,
+    },
+    u16 Tail @calculatedFrom(""CR\
+        C32""),
 }")).
-Eval vm_compute in ("<<<M3907>>>" ++ check (runes_of_ascii "  options
-	{
-i8i8
-
-=
-char[]	;
-}packet
-
-    MetaDataX
-
-{ 
-@calculatedFrom( ""x y""
-
-) 
-int32
-    T
-
-    `" ++ [28040; 24687; 31867; 22411]%N ++ runes_of_ascii "`,  f64
-matchKey ,
-    }
-
+Eval vm_compute in ("<<<M1430>>>" ++ check (runes_of_ascii "options {
+    LittleEndian = true;
+    StringPrefixLenType = u32;
+    FixedStringPadChar = '0';
+}
+packet Logout {
+    repeat InMsgkind49 {
+        u8 pad0,
+    },
+    repeat char[5] seqNo,
+    repeat u8 price,
+}
+packet Party {
+    zchar[7] Qty,
+}
+packet Logon {
+    repeat InRef10 {
+        string price,
+        char[] sym,
+        repeat Logout,
+    },
+    repeat char[3] count,
+    repeat Party,
+    char[] tag7,
+    @rightPad('0') char[2] clOrdID,
+}
+packet Order {
+    InTail13 {
+        Party,
+    },
+    repeat char[4] count,
+}
+root packet Cancel {
+    Logout,
+    @leftPad('0') char[9] msgKind,
+    string lastPx,
+    string tag7,
+    zchar[1] OrderId,
+    repeat Party,
+    u16 sym,
+    u16 Acct @lengthOf(Body),
+    match sym as Body {
+        [24, 44] : Logout,
+        160 : Order,
+        91 : Logon,
+        43 : Party,
+    },
+    u16 Tail @calculatedFrom(""CR\
+C32""),
+}
 ")).
-Eval vm_compute in ("<<<M143>>>" ++ check (runes_of_ascii "options { msg_type = 00 string_ =
+Eval vm_compute in ("<<<M130>>>" ++ check (runes_of_ascii "
+packet
+    o {// trailing space 
+body {
+string options1@lengthOf(int ) ,
+    // " ++ [27880; 37322]%N ++ runes_of_ascii "
+    repeat u
+{ match  tag
+    as
+BodyLength { [	""" ++ [128512]%N ++ runes_of_ascii """
+, /// triple
+""`tick`"" ,
+    // @lengthOf(
+    ""packet"" ,
+""a\\"" ,65535
+, 0123456789 // trailing space 
+]: u
 // `tick` ""quote"" 'q'
 // c
-0 x
-=
-zchar[
-255 ] ;leftPad =false ;f32a // @lengthOf(
-=
-007 ; // " ++ [27880; 37322]%N ++ runes_of_ascii "
+""a\\"" : rootA ,
+    """ ++ [128512]%N ++ runes_of_ascii """: Foo 3
+:  uint8x ,	} , match leftPad as // `tick` ""quote"" 'q'
+a1
+    {1 : //	t
+Header
+,
 }
+, },
+    }
+,
+    chars , repeatCount body
+//	t
+// " ++ [128512]%N ++ runes_of_ascii " emoji
+`a\` ,}	packet metadata {
+@rightPad ('0' // " ++ [27880; 37322]%N ++ runes_of_ascii "
+)
+@leftPad
+( //x
+'0' ) @calculatedFrom( ""packet"") match o as	Logon{ """"
+: A, [
+    007// c
+, 7  , 1
+, """"// trailing space 
+,  42, ""a	b""]  :	A	""it's"" :
+    _x,  },@lengthOf(//x
+Header
+)char[  3 ] i8i8@lengthOf( int )	,char[]Packet @calculatedFrom( ""a	b"")
+, leftPad ,
+    }packet charz { }")).
+Eval vm_compute in ("<<<M157>>>" ++ check (runes_of_ascii "packet Packet { zchar[ /// triple
+00] u
+@lengthOf(tag
+    ),	repeat // " ++ [128512]%N ++ runes_of_ascii " emoji
+string u8x `u8 x,`
+    , packetx { repeat uint8 leftPad `doc` ,
+}	,// " ++ [27880; 37322]%N ++ runes_of_ascii "
+@tag(	0123456789
+)char[] chars@lengthOf(rootA
+// trailing space 
+// c
+) `{ , }` , uint8 Packet ,
+repeat a1 `two words`
+//
+//
+,@calculatedFrom(
+    //	t
+    ""it's"") string_ {u16 A
+// packet A { u8 x, }
+// a // b
+`crlf
+line` , repeat
+string // " ++ [27880; 37322]%N ++ runes_of_ascii "
+uint8x
+    , string u128 ,
+    } , }	packet MetaDataX{
+    //x
+    @tag( 0123456789 ) char[ // packet A { u8 x, }
+3
+    ] Packet , } MetaData
+    repeatCount {  } root packet  u8x
+    // `tick` ""quote"" 'q'
+    { x_y_z// " ++ [27880; 37322]%N ++ runes_of_ascii "
+@lengthOf(
+    // a // b
+    o ) `two words` , // " ++ [27880; 37322]%N ++ runes_of_ascii "
+repeat zchar[ 0123456789
+] len `" ++ [233]%N ++ runes_of_ascii "` , }
+//
 ")).
-Eval vm_compute in ("<<<M3471>>>" ++ check (runes_of_ascii "packet A {
+Eval vm_compute in ("<<<M349>>>" ++ check (runes_of_ascii "root
+packet packetx{ match x
+as repeatCount // " ++ [128512]%N ++ runes_of_ascii " emoji
+{ 65535 //x
+: i8i8 10 :
+x_y_z 42// @lengthOf(
+: packetx 0123456789
+:metadata[ ""\" ++ [233]%N ++ runes_of_ascii """]
+    :
+    x_y_z
+,
+""a\\""
+:i8i8
+, } , stringy { // c
+stringy
+    i64_ , repeat Header As
+    `two words` ,
+    } , repeat char[ 007// `tick` ""quote"" 'q'
+] u8x
+    `line1
+line2` , @lengthOf( charz )
+    // packet A { u8 x, }
+    @leftPad (
+'0' ) int16 BodyLength ,  repeat
+float32 repeatCount	, match trueish as MetaDataX
+    { ""a	b""
+    // a // b
+    :
+    x	,	}
+,char[ 0 ] matchKey @lengthOf( float ) , @lengthOf( i64_)@lengthOf( repeatCount
+) // " ++ [27880; 37322]%N ++ runes_of_ascii "
+@lengthOf(
+float )f32 Z9_ , }")).
+Eval vm_compute in ("<<<M19>>>" ++ check (runes_of_ascii "//
+packet
+/// triple
+// a // b
+chars {int16 int ,	match calculatedFrom as
+    zchar { 4294967296:
+i8i8 , [
+""// no comment"" ] :stringy, ""a\""b"" :	u128 007
+// @lengthOf(
+//x
+: msg_type , 65535
+    : a1 ,""""	: u128} ,
+Packet @lengthOf( f32a )
+`it's` , int16 stringy`u8 x,` , roots @lengthOf( trueish
+) , match charz as A
+    {	10
+    :A ,
+} ,  string
+    Header@calculatedFrom( ""`tick`"" )`doc` , }MetaData	roots { asx metadata,	int64 MetaDataX , char[  42 ] o `// not a comment` ,
+    f32 packetx ,rootA As `it's` , msg_type tag
+, }
+
+")).
+Eval vm_compute in ("<<<M1884>>>" ++ check (runes_of_ascii "  root packet  o
+	{ 
+}	packet
+    T{zchar[ 4294967296 ]  asx
+`say ""hi""`
+
+, } 
+MetaData 
+f32a 
+{ f64 MetaDataX `say ""hi""`
+	    // packet A { u8 x, }
+      ,  x_y_z
+
+rootA `doc` , //	t
+	  u32 repeatCount 
+    /// triple
+  ,
+	string	T 
+,u8x
+
+u`doc` ,	} options
+{ x_y_z
+
+= 0 }// packet A { u8 x, }
+  root packet // c
+  	MetaDataX
+	{@calculatedFrom( ""abc"")
+    @calculatedFrom(
+	""" ++ [128512]%N ++ runes_of_ascii """  ) @tag(	3)
+
+    charz 
+@lengthOf( Packet
+)
+    `line1
+line2`
+
+,} /// triple
+")).
+Eval vm_compute in ("<<<M1360>>>" ++ check (runes_of_ascii "// top
+options // c0a
+  // c0b
+{
+    // c1
+LittleEndian =
+    // c3
+true // c4
+; }
+    // c6
+packet
+    // c7
+B // c8
+{ // c9a
+  // c9b
+u8 // c10
+a // c11a
+  // c11b
+, // c12
+string s // c14
+, // c15a
+  // c15b
+} // c16a
+  // c16b
+root
+    // c17
+packet // c18a
+  // c18b
+P { u16 // c21
+L // c22a
+  // c22b
+@lengthOf( B ) // c25a
+  // c25b
+,
+    // c26
+B // c27a
+  // c27b
+, // c28
+u8 // c29
+t , // c31
+} ")).
+Eval vm_compute in ("<<<M116>>>" ++ check (runes_of_ascii "options//	t
+{
+BodyLength
+    = ""{,}"" tag	=
+    ""// no comment"" ; } options {
+    charz
+= '\x00' ; // a // b
+repeatCount
+= 255// c
+; _x
+=
+    """ ++ [128512]%N ++ runes_of_ascii """
+    ; Foo= '0'	a1 ='0'
+//x
+//
+}root packet falsey { i64 packetx@lengthOf( Header//	t
+)`" ++ [28040; 24687; 31867; 22411]%N ++ runes_of_ascii "` ,
+len @lengthOf( roots )
+`a\` , zchar	@lengthOf( MetaDataX
+    //x
+    )
+    `line1
+line2`
+    , } // packet A { u8 x, }")).
+Eval vm_compute in ("<<<M2018>>>" ++ check (runes_of_ascii "// a // b
+packet int {
+    //	t
+    pack @lengthOf(leftPad),
+    u128 MetaDataX,
+    char[] charz @calculatedFrom(""\" ++ [233]%N ++ runes_of_ascii """),
+    calculatedFrom {
+        float BodyLength,
+    },
+    @calculatedFrom(""" ++ [233]%N ++ runes_of_ascii "t" ++ [233]%N ++ runes_of_ascii """)
+    @lengthOf(MetaDataX)
+    match Logon as i64_ {
+        [0, 255, 10, 7, 0123456789] : asx,
+        // " ++ [128512]%N ++ runes_of_ascii " emoji
+    },
+}")).
+Eval vm_compute in ("<<<M1397>>>" ++ check (runes_of_ascii "packet A {
     u8 a,
 }
 packet B {
     u16 b,
 }
-root packet P {
-    u8 K,
-    match K as M {
+packet C {
+    u32 c,
+}
+root packet M {
+    u16 Kc, u16 Kb, u16 Ka,
+    match Kc as X {
+        9 : A,
+        10 : B,
+    },
+    match Kb as Y {
+        2 : C,
         1 : A,
+    },
+    match Ka as Z {
         1 : B,
     },
+    A, B, C,
 }
 ")).
-Eval vm_compute in ("<<<M4476>>>" ++ check (runes_of_ascii "packet A {
-    match k as n {
-        [
-            1, 22, 007, 4, 5,
-            66, 7, 8
-        ] : B,
-        2 : C,
-    },
+Eval vm_compute in ("<<<M2035>>>" ++ check (runes_of_ascii "MetaData asx {
+    // packet A { u8 x, }
+    char Z9_,
+}
+
+options {
+    Pad = '0'/// triple
+}
+
+options {
+    trueish = ""it's""
+    matchKey = false;
+    T = float32;
+    /// triple
+    len = ' ';
+    string_ = i16;
+}
+
+root packet f32a {
+    char[] u8x,
 }")).
-Eval vm_compute in ("<<<M1736>>>" ++ check (runes_of_ascii "root packet /// triple
-" ++ [252]%N ++ runes_of_ascii "ber {	i32
-MetaDataX@calculatedFrom( ""CRC32"" ) `line1
-line2` , } MetaData BodyLength {
-u8
-rootA, } // c")).
-Eval vm_compute in ("<<<M4443>>>" ++ check (runes_of_ascii "packet
-calculatedFrom 
-{  @tag(
-
-4294967296)	u
-
-    msg_type
-, char[3
-	] crc
-@lengthOf(
-len )`u8 x,` 
-
-    // c
-    ,}
+Eval vm_compute in ("<<<M181>>>" ++ check (runes_of_ascii "root
+packet BodyLength {
+//x
+//	t
+@rightPad( ' ') f32
+_x @lengthOf( Header )
+`" ++ [28040; 24687; 31867; 22411]%N ++ runes_of_ascii "`
+, @lengthOf( crc )
+    // a // b
+    @tag(
+    007
+) char[]// c
+a1
+    ,  } packet metadata { Foo@calculatedFrom( ""\n""), char _x
+// " ++ [27880; 37322]%N ++ runes_of_ascii "
+//	t
+, }
 ")).
-Eval vm_compute in ("<<<M4510>>>" ++ check (runes_of_ascii "packet
+Eval vm_compute in ("<<<M552>>>" ++ check (runes_of_ascii "options
+{
+matchKey = 42/// triple
+x='0' ;
+// packet A { u8 x, }
+//
+charz
+=
+// packet A { u8 x, }
+// trailing space 
+true  ; } MetaData BodyLength
+{
+uint8
+pack,zchar[ 1]float ,  float32 x_y_z `` ,u32
+_x,i16 body body  , }
+")).
+Eval vm_compute in ("<<<M497>>>" ++ check (runes_of_ascii "options
+{
+matchKey = 42/// triple
+x='0' ;
+// packet A { u8 x, }
+//
+charz
+=
+// packet A { u8 x, }
+// trailing space 
+true  ; } MetaData BodyLength
+{
+uint8
+pack,zchar[ 1] ]float ,  float32 x_y_z `` ,u32
+_x,i16 body  , }
+")).
+Eval vm_compute in ("<<<M393>>>" ++ check (runes_of_ascii "options
+matchKey
+{ = 42/// triple
+x='0' ;
+// packet A { u8 x, }
+//
+charz
+=
+// packet A { u8 x, }
+// trailing space 
+true  ; } MetaData BodyLength
+{
+uint8
+pack,zchar[ 1]float ,  float32 x_y_z `` ,u32
+_x,i16 body  , }
+")).
+Eval vm_compute in ("<<<M541>>>" ++ check (runes_of_ascii "options
+{
+matchKey = 42/// triple
+x='0' ;
+// packet A { u8 x, }
+//
+charz
+=
+// packet A { u8 x, }
+// trailing space 
+true  ; } MetaData BodyLength
+{
+uint8
+pack,zchar[ 1]float ,  float32 x_y_z `` ,u32
+_x i16 body  , }
+")).
+Eval vm_compute in ("<<<M585>>>" ++ check (runes_of_ascii "options
+{
+na" ++ [239]%N ++ runes_of_ascii "ve = 42/// triple
+x='0' ;
+// packet A { u8 x, }
+//
+charz
+=
+// packet A { u8 x, }
+// trailing space 
+true  ; } MetaData BodyLength
+{
+uint8
+pack,zchar[ 1]float ,  float32 x_y_z `` ,u32
+_x,i16 body  , }
+")).
+Eval vm_compute in ("<<<M1415>>>" ++ check (runes_of_ascii "packet Logon {
+    string user,
+}
+root packet Frame {
+    u8 K,
+    match K as Body {
+        1 : Logon,
+        2 : Logout,
+    },
+    Tail,
+}
+packet Logout {
+    u16 reason,
+}
+packet Tail {
+    u32 crc,
+}
+")).
+Eval vm_compute in ("<<<M699>>>" ++ check (runes_of_ascii "// c
+packet i64_ {	char[] calculatedFrom , } packet
+trueish trueish  {@calculatedFrom(
+""a\\"" ) o { i32 falsey@lengthOf( uint8x ),
+} , } // `tick` ""quote"" 'q'
+options {// c
+Z9_ = ' '//
+}
+")).
+Eval vm_compute in ("<<<M698>>>" ++ check (runes_of_ascii "// c
+packet i64_ {	char[] calculatedFrom , } packet
+trueish  {@calculatedFrom(
+""a\\"" ) ) o { i32 falsey@lengthOf( uint8x ),
+} , } // `tick` ""quote"" 'q'
+options {// c
+Z9_ = ' '//
+}
+")).
+Eval vm_compute in ("<<<M694>>>" ++ check (runes_of_ascii "// c
+packet i64_ {	char[] calculatedFrom , } packet
+trueish  {@calculatedFrom(
+""a\\"" ) o { i32 falsey@lengthOf( " ++ [252]%N ++ runes_of_ascii "ber ),
+} , } // `tick` ""quote"" 'q'
+options {// c
+Z9_ = ' '//
+}
+")).
+Eval vm_compute in ("<<<M1645>>>" ++ check (runes_of_ascii "// top
+packet o {
+    // c2
+    @tag(42)
+    // c5
+    repeat x {
+        // c8
+        char[0123456789] i64_,// c13
+    },// c15
+}// c16
 
-A
+options {
+    // c18
+}// c19")).
+Eval vm_compute in ("<<<M185>>>" ++ check (runes_of_ascii "options {  Logon =
+    ""{,}"" } //	t
+MetaData leftPad { i8 zchar `// not a comment`, } MetaData len
+    {char[] u128	,} // " ++ [27880; 37322]%N ++ runes_of_ascii "
+root
+    packet Pad
+{
+    }")).
+Eval vm_compute in ("<<<M1574>>>" ++ check (runes_of_ascii "
+packet A
+{
+    match k as
+	n
+    {
+	[	1	, ""bb"",
+007
+    , ""d""	,	5
 
-    { Inner
-	{ match
-	k	as n{
+, ""f"",  7  ,
+    ""h"",	9	,
 
-    [	1
-
-, 22
-    ,
-
-007 ,
-    4
-
-    ,  5 ,
-
-66
-,	7
-] :
-    B 
-,}
-,},} ")).
-Eval vm_compute in ("<<<M1682>>>" ++ check (runes_of_ascii "root packet /// triple
-rootA {	i32
-MetaDataX@calculatedFrom( ""CRC32"" ) `line1
-line2` , }  BodyLength {
-u8
-rootA, } // c")).
-Eval vm_compute in ("<<<M4302>>>" ++ check (runes_of_ascii "options {
-    // " ++ [27880; 37322]%N ++ runes_of_ascii "
+    ""j""
+	, 11]	:
+    B ,
+	2
+    :C
+    } ,}
+")).
+Eval vm_compute in ("<<<M1100>>>" ++ check (runes_of_ascii "// top
+MetaData
+    // c0
+zchar
+    // c1
+{
+    // c2
+zchar[
+    // c3
+3
+    // c4
+]
+    // c5
+Pad
+    // c6
+,
+    // c7
+}
+    // c8
+")).
+Eval vm_compute in ("<<<M592>>>" ++ check (runes_of_ascii "MetaData
     // trailing space 
-    crc = '\x00'
-}
-
-packet len {
-}
-
-packet repeatCount {
-}// trailing space ")).
-Eval vm_compute in ("<<<M1792>>>" ++ check (runes_of_ascii "packet
-    Pad // a // b
-i8i8 { @calculatedFrom( ""a	b"") `u8 x,` ,
-} options{ float// " ++ [128512]%N ++ runes_of_ascii " emoji
-= f64 i64_
-=//	t
-00 }
-")).
-Eval vm_compute in ("<<<M1845>>>" ++ check (runes_of_ascii "packet
-    Pad // a // b
-{ i8i8 @calculatedFrom( ""a	b"") `u8 x,` ,
-} options{ float// " ++ [128512]%N ++ runes_of_ascii " emoji
- f64 i64_
-=//	t
-00 }
-")).
-Eval vm_compute in ("<<<M1850>>>" ++ check (runes_of_ascii "packet
-    Pad // a // b
-{ i8i8 @calculatedFrom( ""a	b"") `u8 x,` ,
-} options{ float// " ++ [128512]%N ++ runes_of_ascii " emoji
-=  i64_
-=//	t
-00 }
-")).
-Eval vm_compute in ("<<<M1781>>>" ++ check (runes_of_ascii "
-    Pad // a // b
-{ i8i8 @calculatedFrom( ""a	b"") `u8 x,` ,
-} options{ float// " ++ [128512]%N ++ runes_of_ascii " emoji
-= f64 i64_
-=//	t
-00 }
-")).
-Eval vm_compute in ("<<<M1298>>>" ++ check (runes_of_ascii "root
-    packet options1 { @calculatedFrom( """ ++ [128512]%N ++ runes_of_ascii """ ) u8x
-@calculatedFrom( ""a\\""
-/// triple
-// @lengthOf(
-) ,	}
-")).
-Eval vm_compute in ("<<<M3444>>>" ++ check (runes_of_ascii "
-packet	B  { u8
-    a	,	string s	, }
-root packet
-
-    P {	u16
-
-L
-	@lengthOf( B)	,
-B,
-u8
-t
-	,
-
-    } ")).
-Eval vm_compute in ("<<<M3343>>>" ++ check (runes_of_ascii "packet calculatedFrom { // c
-@tag( 4294967296 ) u msg_type , char[ 3 ] crc @lengthOf( len ) `u8 x,` , }")).
-Eval vm_compute in ("<<<M3450>>>" ++ check (runes_of_ascii "
-options{
-
-    FixedStringPadFromLeft
+    matchKey matchKey
+{ u64 chars // a // b
+,char[] lengthOf `// not a comment`
+    , //	t
+}")).
+Eval vm_compute in ("<<<M1631>>>" ++ check (runes_of_ascii "  options { LittleEndian
 
 =
+	true
 
-    true
+    ;  }
+    root
 
-; } root
-	packet 
-P{
-    char[4
-]z 
+    packet	P { u16 a
 ,
-
-    } ")).
-Eval vm_compute in ("<<<M2969>>>" ++ check (runes_of_ascii "packet A {
-  match k as n {
-    [""a"", 22, ""c c"", 4, ""e"", 66, ""g"", 8, ""i"", 10] : B,
-    2 : C
-  },
+u32 
+Sum
+@calculatedFrom(""CRC32"")
+, }
+")).
+Eval vm_compute in ("<<<M653>>>" ++ check (runes_of_ascii "MetaData
+ /   // trailing space 
+    matchKey
+{ u64 chars // a // b
+,char[] lengthOf `// not a comment`
+    , //	t
 }")).
-Eval vm_compute in ("<<<M4372>>>" ++ check (runes_of_ascii "
-options
+Eval vm_compute in ("<<<M596>>>" ++ check (runes_of_ascii "MetaData
+    // trailing space 
+    matchKey
+ u64 chars // a // b
+,char[] lengthOf `// not a comment`
+    , //	t
+}")).
+Eval vm_compute in ("<<<M660>>>" ++ check (runes_of_ascii "MetaData
+    // trailing space 
+    " ++ [252]%N ++ runes_of_ascii "ber
+{ u64 chars // a // b
+,char[] lengthOf `// not a comment`
+    , //	t
+}")).
+Eval vm_compute in ("<<<M1842>>>" ++ check (runes_of_ascii "
 
-{ LittleEndian =	true ;
+  packet
 
-    }  root
-	packet P
+    Pad
+    { @calculatedFrom( ""CRC32""  )  @tag( 
+7 
+) float32 u128
 
-{  repeat
-	char 
-cs ,u8
-    x ,
-    }")).
-Eval vm_compute in ("<<<M3219>>>" ++ check (runes_of_ascii "packet Logon
+@calculatedFrom(""\n""),
+
+}
+")).
+Eval vm_compute in ("<<<M1289>>>" ++ check (runes_of_ascii "packet calculatedFrom { @tag( 4294967296 ) u msg_type , char[ 3 ] crc @lengthOf( len ) `u8 x,` , } // c
+")).
+Eval vm_compute in ("<<<M1274>>>" ++ check (runes_of_ascii "packet calculatedFrom { @tag( 4294967296 ) u msg_type , char[ 3
 // c
-{ @tag( 42 ) @rightPad ( ' ' ) @leftPad ( ) repeat trueish { string T , } , }")).
-Eval vm_compute in ("<<<M3251>>>" ++ check (runes_of_ascii "packet Logon { @tag( 42 ) @rightPad ( ' ' ) @leftPad ( ) repeat trueish { string T
-// c
-, } , }")).
-Eval vm_compute in ("<<<M4240>>>" ++ check (runes_of_ascii "packet crc {
-    repeat int64 string_ `" ++ [28040; 24687; 31867; 22411]%N ++ runes_of_ascii "`,
-}
+] crc @lengthOf( len ) `u8 x,` , }")).
+Eval vm_compute in ("<<<M1873>>>" ++ check (runes_of_ascii "
+packet
 
-root packet leftPad {
-}
-
-MetaData A {
-}
-// c")).
-Eval vm_compute in ("<<<M2958>>>" ++ check (runes_of_ascii "packet A {
-  match k as n {
-    [1, 22, ""c c"", 4, 5, ""f"", 7, 8, ""i""] : B,
-    2 : C
-  },
-}")).
-Eval vm_compute in ("<<<M2964>>>" ++ check (runes_of_ascii "packet A {
-  match k as n {
-    [1, 22, 007, 4, 5, 66, 7, 8, 9, 10] : B
-    2 : C
-  },
-}")).
-Eval vm_compute in ("<<<M1004>>>" ++ check (runes_of_ascii "packet i64_	{
-} MetaData metadata
-    {int64 string_	`doc`  ,
-}
-    packet T{
-    }
-")).
-Eval vm_compute in ("<<<M1998>>>" ++ check (runes_of_ascii "root
-packet crc
-    { f32a @calculatedFrom( """ ++ [233]%N ++ runes_of_ascii "t" ++ [233]%N ++ runes_of_ascii """ )
-    ,`say ""hi""` lengthOf `` ,  }")).
-Eval vm_compute in ("<<<M4404>>>" ++ check (runes_of_ascii "
-MetaData
-    stringy
-    {  char[ 
-0
-
-]
-
-    chars// @lengthOf(
-  `{ , }`  ,  }
-")).
-Eval vm_compute in ("<<<M1976>>>" ++ check (runes_of_ascii "root
-packet crc
-    {  @calculatedFrom( """ ++ [233]%N ++ runes_of_ascii "t" ++ [233]%N ++ runes_of_ascii """ )
-    `say ""hi""`, lengthOf `` ,  }")).
-Eval vm_compute in ("<<<M3318>>>" ++ check (runes_of_ascii "packet o { @tag( 42 ) repeat x { char[ 0123456789 ] i64_ // c
-, } , } options { }")).
-Eval vm_compute in ("<<<M3611>>>" ++ check (runes_of_ascii "
-packet  A {
-    B	b 
-`x
-`
-
-    ,
-    B
-`x
-`
-,
-    repeat
-	B bs
-`x
-`,
-    } ")).
-Eval vm_compute in ("<<<M3817>>>" ++ check (runes_of_ascii "packet A {
-    B b `a
-    b`,
-    B `a
-    b`,
-    repeat B bs `a
-    b`,
-}")).
-Eval vm_compute in ("<<<M4308>>>" ++ check (runes_of_ascii "packet A {
-    match k as n {
-        [1, ""bb""] : B,
-        2 : C,
-    },
-}")).
-Eval vm_compute in ("<<<M1072>>>" ++ check (runes_of_ascii "packet
-    o {
-@rightPad( )// trailing space 
-x_y_z calculatedFrom , }
-
-")).
-Eval vm_compute in ("<<<M3457>>>" ++ check (runes_of_ascii "
-root
-	packet
-	P 
-{ u16  a, u32
-Sum@calculatedFrom( ""CRC32""
-    ) 
-,  }")).
-Eval vm_compute in ("<<<M3410>>>" ++ check (runes_of_ascii "MetaData _x { zchar[ 4294967296 ] lengthOf `// not a comment`
-// c
-, }")).
-Eval vm_compute in ("<<<M2184>>>" ++ check (runes_of_ascii "root
-    // `tick` ""quote"" 'q'
-    packet As { trueish Packet u16 }
-")).
-Eval vm_compute in ("<<<M3455>>>" ++ check (runes_of_ascii "root packet P {
-    u16 a,
-    u32 Sum @calculatedFrom(""CRC32""),
-}
-")).
-Eval vm_compute in ("<<<M939>>>" ++ check (runes_of_ascii "packet  metadata{ calculatedFrom Packet ,}
-// packet A { u8 x, }
-")).
-Eval vm_compute in ("<<<M2869>>>" ++ check (runes_of_ascii "packet A {
-  match k as n {
-    [""a"", 22] : B,
-    2 : C
-  },
-}")).
-Eval vm_compute in ("<<<M3432>>>" ++ check (runes_of_ascii "root 
-packet 
-P
-
-{
-
-    hdr
-{ 
-u8
-a  ,}
-    ,
-u8
-x ,
-
-}
-
-")).
-Eval vm_compute in ("<<<M4202>>>" ++ check (runes_of_ascii "MetaData M {
-    u8 x `tab
-    	x`,
-    T t `tab
-    	x`,
-}")).
-Eval vm_compute in ("<<<M2884>>>" ++ check (runes_of_ascii "packet A { Inner { match k as n { [1,22,007] : B, }, }, }")).
-Eval vm_compute in ("<<<M1902>>>" ++ check (runes_of_ascii "
-packet	{ As @calculatedFrom(//x
-""{,}""	)lengthOf , } 	 ")).
-Eval vm_compute in ("<<<M138>>>" ++ check (runes_of_ascii "MetaData
-    /// triple
-    falsey { uint16 Z9_ ,
-}")).
-Eval vm_compute in ("<<<M2403>>>" ++ check (runes_of_ascii "MetaData A
-{ {
-i64
-chars	, } // `tick` ""quote"" 'q'")).
-Eval vm_compute in ("<<<M3885>>>" ++ check (runes_of_ascii "  MetaData M
+    A
 
     {
-	u8
-x`
-x`  ,T  t
+Inner {
 
-`
-x` , } ")).
-Eval vm_compute in ("<<<M1773>>>" ++ check (runes_of_ascii "options { }options {  } // `tick` ""quote"" 'q'\ ")).
-Eval vm_compute in ("<<<M2120>>>" ++ check (runes_of_ascii "MetaData x
-{// " ++ [128512]%N ++ runes_of_ascii " emoji
-i16 stringy stringy , }")).
-Eval vm_compute in ("<<<M1747>>>" ++ check (runes_of_ascii "options { options {  } // `tick` ""quote"" 'q'")).
-Eval vm_compute in ("<<<M4040>>>" ++ check (runes_of_ascii "
-options {
-	u8x 
+    u8
 
-    // c
+    x
+    `
+x` ,  Deep
+	{
+	u8 
+y `
+x`, },
 
-=
-
-    3
 }
+    , } ")).
+Eval vm_compute in ("<<<M1129>>>" ++ check (runes_of_ascii "
+// c
+packet Logon { @tag( 42 ) @rightPad ( ' ' ) @leftPad ( ) repeat trueish { string T , } , }")).
+Eval vm_compute in ("<<<M1152>>>" ++ check (runes_of_ascii "packet Logon { @tag( 42 ) @rightPad ( ' ' ) @leftPad ( // c
+) repeat trueish { string T , } , }")).
+Eval vm_compute in ("<<<M862>>>" ++ check (runes_of_ascii "packet A {
+  match k as n {
+    [""a"", ""bb"", 007, ""d"", ""e"", 66, ""g"", ""h""] : B
+    2 : C
+  },
+}")).
+Eval vm_compute in ("<<<M1343>>>" ++ check (runes_of_ascii "packet
+
+    Inner {  u8 a
+    , }root
+packet  P
+
+{repeat 
+Inner
+
+items
+    ,
+u8 x , } ")).
+Eval vm_compute in ("<<<M864>>>" ++ check (runes_of_ascii "packet A {
+  match k as n {
+    [1, 22, 007, 4, 5, 66, 7, 8, 9] : B,
+    2 : C
+  },
+}")).
+Eval vm_compute in ("<<<M829>>>" ++ check (runes_of_ascii "packet A {
+  match k as n {
+    [1, ""bb"", 007, ""d"", 5, ""f""] : B,
+    2 : C
+  },
+}")).
+Eval vm_compute in ("<<<M1235>>>" ++ check (runes_of_ascii "packet o { @tag( 42 ) repeat x { char[ 0123456789 ] i64_ ,
+// c
+} , } options { }")).
+Eval vm_compute in ("<<<M838>>>" ++ check (runes_of_ascii "packet A {
+  match k as n {
+    [1, 22, 007, 4, 5, 66, 7] : B,
+    2 : C
+  },
+}")).
+Eval vm_compute in ("<<<M902>>>" ++ check (runes_of_ascii "packet A { Inner { match k as n { [1,22,007,4,5,66,7,8,9,10,11] : B, }, }, }")).
+Eval vm_compute in ("<<<M1593>>>" ++ check (runes_of_ascii "packet A {
+    match k as n {
+        [""a""] : B,
+        2 : C,
+    },
+}")).
+Eval vm_compute in ("<<<M1317>>>" ++ check (runes_of_ascii "MetaData _x { zchar[ 4294967296 // c
+] lengthOf `// not a comment` , }")).
+Eval vm_compute in ("<<<M786>>>" ++ check (runes_of_ascii "packet A {
+  match k as n {
+    [1, 22, 007] : B,
+    2 : C
+  },
+}")).
+Eval vm_compute in ("<<<M214>>>" ++ check (runes_of_ascii "
+MetaData string_ {Header
+    roots ,} MetaData
+MetaDataX	{ }")).
+Eval vm_compute in ("<<<M798>>>" ++ check (runes_of_ascii "packet A { Inner { match k as n { [1,22,007] : B, }, }, }")).
+Eval vm_compute in ("<<<M150>>>" ++ check (runes_of_ascii "options {float
+    = 4294967296 ;} options
+{ }
 ")).
-Eval vm_compute in ("<<<M3018>>>" ++ check (runes_of_ascii "MetaData M {
-    u8 x `
-`,
-    T t `
-`,
+Eval vm_compute in ("<<<M1065>>>" ++ check (runes_of_ascii "packet A {
+    u8 x,    // c    u8 y,
 }")).
-Eval vm_compute in ("<<<M2761>>>" ++ check (runes_of_ascii "int8 @calculatedFrom( packet i32 ) as u8")).
-Eval vm_compute in ("<<<M2138>>>" ++ check (runes_of_ascii "/MetaData x
-{// " ++ [128512]%N ++ runes_of_ascii " emoji
-i16 stringy , }")).
-Eval vm_compute in ("<<<M2692>>>" ++ check (runes_of_ascii "JGdi0j'|Ze/o)f{H14^iRT3}Qq\} ;}&XD2>X=")).
-Eval vm_compute in ("<<<M2850>>>" ++ check (runes_of_ascii "9h~{]Ry1}z""O-Eq~&O&et9""E9C]I0lrU:UOAN")).
-Eval vm_compute in ("<<<M2776>>>" ++ check (runes_of_ascii "@rightPad char : = char packet true")).
-Eval vm_compute in ("<<<M2814>>>" ++ check (runes_of_ascii "	" ++ [65533; 65533; 65533]%N ++ runes_of_ascii "Y" ++ [65533; 31; 65533; 65533]%N ++ runes_of_ascii "(" ++ [26]%N ++ runes_of_ascii "g" ++ [65533; 65533; 65533; 65533]%N ++ runes_of_ascii "-" ++ [567]%N ++ runes_of_ascii "q" ++ [65533; 65533; 4]%N ++ runes_of_ascii "G" ++ [65533]%N ++ runes_of_ascii "1" ++ [65533]%N ++ runes_of_ascii "/;D" ++ [65533]%N ++ runes_of_ascii "D" ++ [1; 65533]%N)).
-Eval vm_compute in ("<<<M2096>>>" ++ check (runes_of_ascii "MetaData A { '\x01' u64 pack, }")).
-Eval vm_compute in ("<<<M3083>>>" ++ check (runes_of_ascii "packet A {
- u8 x `d" ++ [5760]%N ++ runes_of_ascii "`, // c" ++ [5760]%N ++ runes_of_ascii "
+Eval vm_compute in ("<<<M1883>>>" ++ check (runes_of_ascii "MetaData x_y_z {
+    string options1,
 }")).
-Eval vm_compute in ("<<<M3892>>>" ++ check (runes_of_ascii "options {
-    string_ = 007
+Eval vm_compute in ("<<<M945>>>" ++ check (runes_of_ascii "root packet A {
+    u8 x `a
+
+b`,
 }")).
-Eval vm_compute in ("<<<M1985>>>" ++ check (runes_of_ascii "root
-packet crc
-    { f32a")).
-Eval vm_compute in ("<<<M2094>>>" ++ check (runes_of_ascii "MetaData \ A { u64 pack, }")).
-Eval vm_compute in ("<<<M2619>>>" ++ check (runes_of_ascii "packet A { @tag() u8 x, }")).
-Eval vm_compute in ("<<<M2661>>>" ++ check (runes_of_ascii "options { a = char[x]; }")).
-Eval vm_compute in ("<<<M2076>>>" ++ check (runes_of_ascii "MetaData A { u64 pack, ")).
-Eval vm_compute in ("<<<M2398>>>" ++ check (runes_of_ascii "MetaData A
+Eval vm_compute in ("<<<M1721>>>" ++ check (runes_of_ascii "options {
+    Packet = char[]
+}")).
+Eval vm_compute in ("<<<M161>>>" ++ check (runes_of_ascii "packet u {A
+    trueish , }
+")).
+Eval vm_compute in ("<<<M1083>>>" ++ check (runes_of_ascii "packet A { // a
+ u8 x, }")).
+Eval vm_compute in ("<<<M410>>>" ++ check (runes_of_ascii "options
 {
-i64
-chars")).
-Eval vm_compute in ("<<<M3740>>>" ++ check (runes_of_ascii "options {
-    a = 1
-}")).
-Eval vm_compute in ("<<<M2562>>>" ++ check (runes_of_ascii "packet A { repeat }")).
-Eval vm_compute in ("<<<M1760>>>" ++ check (runes_of_ascii "options { }options")).
-Eval vm_compute in ("<<<M3107>>>" ++ check (runes_of_ascii "// c" ++ [8239]%N ++ runes_of_ascii "
+matchKey =")).
+Eval vm_compute in ("<<<M986>>>" ++ check (runes_of_ascii "// c" ++ [160]%N ++ runes_of_ascii "
 packet A {
 }")).
-Eval vm_compute in ("<<<M2732>>>" ++ check (runes_of_ascii " TdlH$1;l|=o#;&v&")).
-Eval vm_compute in ("<<<M2651>>>" ++ check (runes_of_ascii "MetaData M M { }")).
-Eval vm_compute in ("<<<M2627>>>" ++ check (runes_of_ascii "packet A { } }")).
-Eval vm_compute in ("<<<M151>>>" ++ check (runes_of_ascii "options { }")).
-Eval vm_compute in ("<<<M2479>>>" ++ check (runes_of_ascii "@leftPad(")).
-Eval vm_compute in ("<<<M2740>>>" ++ check (runes_of_ascii "6g/cniK")).
-Eval vm_compute in ("<<<M2429>>>" ++ check (runes_of_ascii "char_")).
-Eval vm_compute in ("<<<M3110>>>" ++ check (runes_of_ascii "// c" ++ [8287]%N)).
-Eval vm_compute in ("<<<M2544>>>" ++ check (runes_of_ascii "a
-b")).
-Eval vm_compute in ("<<<M2549>>>" ++ check (runes_of_ascii "a" ++ [8232]%N ++ runes_of_ascii "b")).
-Eval vm_compute in ("<<<M2442>>>" ++ check (runes_of_ascii "u")).
+Eval vm_compute in ("<<<M37>>>" ++ check (runes_of_ascii "MetaData charz{ }")).
+Eval vm_compute in ("<<<M1071>>>" ++ check (runes_of_ascii "
+
+  packet A {}")).
+Eval vm_compute in ("<<<M979>>>" ++ check (runes_of_ascii "// c" ++ [12288]%N)).
